@@ -12,6 +12,7 @@ import Mathlib.Data.Int.Cast.Field
 import Mathlib.Algebra.Order.Field.Basic
 import Mathlib.Algebra.Order.Field.Rat
 import Mathlib.Data.Rat.Cast.Order
+import Mathlib.Algebra.Order.Ring.Defs
 /-! C14 — property theorems (namespace `DendroModel.C14`; helper lemmas in `DendroModel.C14.Aux`).
 
 Clauses of the statement and where they are proved, for every tree / every number type with the stated laws:
@@ -24,6 +25,15 @@ Clauses of the statement and where they are proved, for every tree / every numbe
      `nj_lengths_formula`, `nj_cherry_step`, `nj_terminates`, `upgma_avg_spec` (+ `upgma_join_invariant`, …),
      `upgma_ultrametric`, `upgma_tree_ultrametric`, `upgma_terminates`; the reconstruction claims themselves only as one-step
      lemmas `nj_recovers_tree_partial`, `upgma_recovers_tree_partial` (the cherry-picking consistency lemma is not proved).
+ Extension round (NJ / UPGMA *invert* distances; treemeasure):
+     `upgma_realises` (any matrix with the strong triangle inequality is realised exactly by the returned tree),
+     `ultra_three_point`, `upgma_inverts_ultrametric_tree`, `ultra_unique`, **`upgma_recovers_tree`** (full UPGMA clause:
+     source tree returned up to child swaps, lengths included), `frac_upgma_recovers_tree`;
+     `nj_realises_of_cherry_picking_partial` (induction over contractions; hypothesis = the cherry-picking lemma),
+     `nj_realises_three` (unconditional for ≤ 3 taxa), `cherry_of_three`, `nrel_pool_le`;
+     `frac_mean_pairwise_both`, `frac_mntd` (both weightings at `Frac`);
+     `treemeasure_climb_spec`, `treemeasure_spec`, `treemeasure_current_spec`, `frac_treemeasure_spec`
+     (`Tree.mrca` + two climbs = unique path length).
  Bridge to the driver's number type: `toRat` is a homomorphism on fractions with non-zero denominator (`Aux.toRat_*`), the
  models are natural in the number type (`Aux.entries_nat`, `Aux.nj_run_rel`, `Aux.up_run_rel`), hence the statements at
  `Frac`: `frac_pdm_spec`, `frac_pdm_lookup_spec`, `frac_nj_rowsum_invariant`, `frac_nj_tree`, `frac_upgma_tree`. -/
@@ -2346,5 +2356,1620 @@ theorem frac_mean_pairwise (t : T) (h : Good taxonKey t) (norm : Frac) (hn : nor
     rfl
 
 example := frac_mean_pairwise exTree (by unfold Good; decide) Frac.one (by decide) (fun _ => true)
+
+
+/-! ## extension round: NJ / UPGMA *invert* distances — the result tree realises the input matrix -/
+section realise
+variable {α : Type}
+
+/-- leaf labels of a result tree, left to right -/
+def NT.leafIds : NT α → List Nat
+  | .leaf i => [i]
+  | .node f _ g _ => NT.leafIds f ++ NT.leafIds g
+
+/-- sum of the edge lengths from the root of `t` down to leaf `i` -/
+def NT.depthOf [Zero α] [Add α] : NT α → Nat → Option α
+  | .leaf j, i => if i = j then some 0 else none
+  | .node f lf g lg, i =>
+    match NT.depthOf f i with
+    | some x => some (x + lf)
+    | none => match NT.depthOf g i with
+      | some y => some (y + lg)
+      | none => none
+
+/-- length of the path between the leaves `i` and `j` of a result tree -/
+def NT.dist [Zero α] [Add α] : NT α → Nat → Nat → Option α
+  | .leaf _, _, _ => none
+  | .node f lf g lg, i, j =>
+    match NT.depthOf f i, NT.depthOf f j with
+    | some _, some _ => NT.dist f i j
+    | some x, none => match NT.depthOf g j with
+      | some y => some ((x + lf) + (y + lg))
+      | none => none
+    | none, some y => match NT.depthOf g i with
+      | some x => some ((x + lg) + (y + lf))
+      | none => none
+    | none, none => NT.dist g i j
+
+namespace Aux
+theorem depthOf_none [Zero α] [Add α] : ∀ (t : NT α) (i : Nat), i ∉ NT.leafIds t → NT.depthOf t i = none
+  | .leaf j, i, h => by simp [NT.leafIds] at h; simp [NT.depthOf, h]
+  | .node f lf g lg, i, h => by
+    simp only [NT.leafIds, List.mem_append, not_or] at h
+    simp [NT.depthOf, depthOf_none f i h.1, depthOf_none g i h.2]
+end Aux
+end realise
+
+section upreal
+variable {α : Type} [Field α] [LinearOrder α]
+
+namespace Aux
+/-- the first strict minimum is a minimum -/
+theorem argmin_le {γ : Type} (val : γ → α) : ∀ (l : List γ) (acc : Option (γ × α)) (r : γ × α),
+    (∀ q m, acc = some (q, m) → m = val q) → argmin val l acc = some r →
+    r.2 = val r.1 ∧ (∀ p ∈ l, r.2 ≤ val p) ∧ (∀ q m, acc = some (q, m) → r.2 ≤ m)
+  | [], acc, r, hacc, h => by
+    simp only [argmin] at h
+    obtain ⟨q, m⟩ := r
+    exact ⟨hacc q m h, by simp, fun q' m' h' => by rw [h] at h'; injection h' with h'; injection h' with _ h'; exact le_of_eq h'⟩
+  | p :: ps, none, r, _, h => by
+    simp only [argmin] at h
+    obtain ⟨h1, h2, h3⟩ := argmin_le val ps (some (p, val p)) r (fun q m e => by injection e with e; injection e with e1 e2; rw [← e2, ← e1]) h
+    refine ⟨h1, ?_, by simp⟩
+    intro p' hp'
+    rcases List.mem_cons.mp hp' with rfl | hp''
+    · exact h3 _ _ rfl
+    · exact h2 p' hp''
+  | p :: ps, some (q, m), r, hacc, h => by
+    simp only [argmin] at h
+    by_cases hlt : val p < m
+    · simp only [hlt, if_true] at h
+      obtain ⟨h1, h2, h3⟩ := argmin_le val ps (some (p, val p)) r (fun q m e => by injection e with e; injection e with e1 e2; rw [← e2, ← e1]) h
+      refine ⟨h1, ?_, ?_⟩
+      · intro p' hp'
+        rcases List.mem_cons.mp hp' with rfl | hp''
+        · exact h3 _ _ rfl
+        · exact h2 p' hp''
+      · intro q' m' e; injection e with e; injection e with _ e2; subst e2
+        exact le_trans (h3 _ _ rfl) (le_of_lt hlt)
+    · simp only [hlt, if_false] at h
+      obtain ⟨h1, h2, h3⟩ := argmin_le val ps (some (q, m)) r hacc h
+      refine ⟨h1, ?_, h3⟩
+      intro p' hp'
+      rcases List.mem_cons.mp hp' with rfl | hp''
+      · exact le_trans (h3 _ _ rfl) (not_lt.mp hlt)
+      · exact h2 p' hp''
+end Aux
+
+/-- `upPick` returns a pair at minimal stored distance among all pairs of the pool -/
+theorem upgma_pick_minimal (s : UP α) (hs : ∀ a ∈ s.pool, ∀ b ∈ s.pool, s.d a b = s.d b a) (f g : Nat)
+    (hp : upPick s = some (f, g)) : ∀ a ∈ s.pool, ∀ b ∈ s.pool, a ≠ b → s.d f g ≤ s.d a b := by
+  simp only [upPick, Option.map_eq_some_iff] at hp
+  obtain ⟨r, hr, he⟩ := hp
+  obtain ⟨h1, h2, _⟩ := argmin_le _ _ none r (by simp) hr
+  intro a ha b hb hab
+  rw [he] at h1
+  simp only at h1
+  rcases mem_pairsOf s.pool a b hab ha hb with h | h
+  · have := h2 _ h; rw [h1] at this; exact this
+  · have := h2 _ h; rw [h1] at this; simp only at this; rw [hs a ha b hb]; exact this
+end upreal
+
+
+section upreal2
+variable {α : Type} [Field α] [LinearOrder α] [CharZero α]
+
+/-- what UPGMA maintains on an ultrametric input `d0` over `n` taxa: every pool node's subtree has its cluster as leaf set,
+is ultrametric with the recorded height, realises `d0` between its own leaves, and `d0` is constant — equal to the stored
+distance — between the leaves of two different pool nodes -/
+structure URel (d0 : Nat → Nat → α) (n : Nat) (s : UP α) : Prop where
+  inv : UPInv d0 s
+  ids : ∀ k ∈ s.pool, NT.leafIds (s.sub k) = s.cl k
+  nodupcl : ∀ k ∈ s.pool, (s.cl k).Nodup
+  disj : ∀ a ∈ s.pool, ∀ b ∈ s.pool, a ≠ b → ∀ i ∈ s.cl a, i ∉ s.cl b
+  cross : ∀ a ∈ s.pool, ∀ b ∈ s.pool, a ≠ b → ∀ i ∈ s.cl a, ∀ j ∈ s.cl b, d0 i j = s.d a b
+  inner : ∀ k ∈ s.pool, ∀ i ∈ s.cl k, ∀ j ∈ s.cl k, i ≠ j → NT.dist (s.sub k) i j = some (d0 i j)
+  depth : ∀ k ∈ s.pool, ∀ i ∈ s.cl k, NT.depthOf (s.sub k) i = some (s.h k)
+  cover : (s.pool.flatMap s.cl).Perm (List.range n)
+
+namespace Aux
+theorem flatMap_single : ∀ l : List Nat, l.flatMap (fun i => [i]) = l
+  | [] => rfl
+  | x :: l => by simp [List.flatMap_cons, flatMap_single l]
+end Aux
+
+theorem up_init_urel (n : Nat) (M : Nat → Nat → α) : URel (upInit n M).d n (upInit n M) where
+  inv := up_init_inv n M
+  ids := fun k _ => by simp [upInit, NT.leafIds]
+  nodupcl := fun k _ => by simp [upInit]
+  disj := fun a _ b _ hab i hi => by simp [upInit] at hi ⊢; rw [hi]; exact hab
+  cross := fun a _ b _ _ i hi j hj => by simp [upInit] at hi hj; subst hi; subst hj; rfl
+  inner := fun k _ i hi j hj hij => by simp [upInit] at hi hj; exact absurd (hi.trans hj.symm) hij
+  depth := fun k _ i hi => by simp [upInit] at hi; subst hi; simp [upInit, NT.depthOf]
+  cover := by simp only [upInit]; rw [flatMap_single]
+
+/-- one join at a minimal pair of an ultrametric keeps `URel`: the strong triangle inequality forces the two joined
+clusters to be equally far from every other cluster (a minimal pair of an ultrametric is a sibling pair) -/
+theorem upgma_join_urel (d0 : Nat → Nat → α) (n : Nat)
+    (hu : ∀ i j k, i < n → j < n → k < n → i ≠ j → j ≠ k → i ≠ k → d0 i k ≤ max (d0 i j) (d0 j k))
+    (s : UP α) (h : URel d0 n s) (f g : Nat) (hf : f ∈ s.pool) (hg : g ∈ s.pool) (hfg : f ≠ g)
+    (hmin : ∀ a ∈ s.pool, ∀ b ∈ s.pool, a ≠ b → s.d f g ≤ s.d a b) : URel d0 n (upJoin s f g) := by
+  have hsub : ∀ k, k ∈ (s.pool.erase f).erase g → k ∈ s.pool ∧ k ≠ f ∧ k ≠ g ∧ k ≠ s.next := by
+    intro k hk
+    have h1 : k ∈ s.pool.erase f := List.mem_of_mem_erase hk
+    have hk0 : k ∈ s.pool := List.mem_of_mem_erase h1
+    exact ⟨hk0, fun e => by subst e; exact (List.Nodup.mem_erase_iff h.inv.nodup).mp h1 |>.1 rfl,
+      fun e => by subst e; exact (List.Nodup.mem_erase_iff (h.inv.nodup.erase _)).mp hk |>.1 rfl,
+      fun e => Nat.lt_irrefl _ (e ▸ h.inv.fresh k hk0)⟩
+  have hlt : ∀ a ∈ s.pool, ∀ i ∈ s.cl a, i < n := fun a ha i hi =>
+    List.mem_range.mp (h.cover.mem_iff.mp (List.mem_flatMap.mpr ⟨a, ha, hi⟩))
+  obtain ⟨i0, hi0⟩ := List.exists_mem_of_ne_nil _ (h.inv.nonempty f hf)
+  obtain ⟨j0, hj0⟩ := List.exists_mem_of_ne_nil _ (h.inv.nonempty g hg)
+  -- a minimal pair of an ultrametric is a sibling pair
+  have hsib : ∀ k ∈ (s.pool.erase f).erase g, s.d f k = s.d g k := by
+    intro k hk
+    obtain ⟨hk0, hkf, hkg, _⟩ := hsub k hk
+    obtain ⟨l0, hl0⟩ := List.exists_mem_of_ne_nil _ (h.inv.nonempty k hk0)
+    have c1 := h.cross f hf g hg hfg i0 hi0 j0 hj0
+    have c1' := h.cross g hg f hf (Ne.symm hfg) j0 hj0 i0 hi0
+    have c2 := h.cross f hf k hk0 (Ne.symm hkf) i0 hi0 l0 hl0
+    have c3 := h.cross g hg k hk0 (Ne.symm hkg) j0 hj0 l0 hl0
+    have li := hlt f hf i0 hi0; have lj := hlt g hg j0 hj0; have ll := hlt k hk0 l0 hl0
+    have nij : i0 ≠ j0 := fun e => h.disj f hf g hg hfg i0 hi0 (e ▸ hj0)
+    have nil : i0 ≠ l0 := fun e => h.disj f hf k hk0 (Ne.symm hkf) i0 hi0 (e ▸ hl0)
+    have njl : j0 ≠ l0 := fun e => h.disj g hg k hk0 (Ne.symm hkg) j0 hj0 (e ▸ hl0)
+    have u1 := hu j0 i0 l0 lj li ll (Ne.symm nij) nil njl
+    have u2 := hu i0 j0 l0 li lj ll nij njl nil
+    rw [c1', c2, c3, h.inv.symm g hg f hf] at u1
+    rw [c1, c3, c2] at u2
+    have m1 := hmin f hf k hk0 (Ne.symm hkf)
+    have m2 := hmin g hg k hk0 (Ne.symm hkg)
+    rw [h.inv.symm g hg k hk0] at m2
+    have m2' : s.d f g ≤ s.d g k := by rw [h.inv.symm g hg k hk0]; exact m2
+    rw [max_eq_right m1] at u1
+    rw [max_eq_right m2'] at u2
+    exact le_antisymm u2 u1
+  have hnd := upgma_recovers_tree_partial s f g (h.inv.nonempty f hf) hsib
+  have hnew : ∀ k ∈ (s.pool.erase f).erase g, (upJoin s f g).cl k = s.cl k ∧ (upJoin s f g).sub k = s.sub k ∧
+      (upJoin s f g).h k = s.h k := fun k hk => by simp [upJoin, (hsub k hk).2.2.2]
+  have hdisfg : ∀ i ∈ s.cl f, i ∉ s.cl g := h.disj f hf g hg hfg
+  have hmemP : ∀ k, k ∈ (upJoin s f g).pool → k ∈ (s.pool.erase f).erase g ∨ k = s.next := by
+    intro k hk; simpa [upJoin] using hk
+  have clnew : (upJoin s f g).cl s.next = s.cl f ++ s.cl g := by simp [upJoin]
+  have subnew : (upJoin s f g).sub s.next =
+      .node (s.sub f) (s.d f g / ((2 : Nat) : α) - s.h f) (s.sub g) (s.d f g / ((2 : Nat) : α) - s.h g) := by simp [upJoin]
+  have hnewh : (upJoin s f g).h s.next = s.d f g / ((2 : Nat) : α) - s.h f + s.h f := by simp [upJoin]
+  have dnn : ∀ a ∈ (s.pool.erase f).erase g, ∀ b ∈ (s.pool.erase f).erase g, (upJoin s f g).d a b = s.d a b :=
+    fun a ha b hb => by simp [upJoin, (hsub a ha).2.2.2, (hsub b hb).2.2.2]
+  have dnk : ∀ k ∈ (s.pool.erase f).erase g, (upJoin s f g).d s.next k = s.d f k ∧ (upJoin s f g).d k s.next = s.d f k :=
+    fun k hk => by simp [upJoin, (hsub k hk).2.2.2, hnd k hk]
+  have nf : ∀ i ∈ s.cl f, NT.depthOf (s.sub f) i = some (s.h f) := h.depth f hf
+  have ng : ∀ i ∈ s.cl g, NT.depthOf (s.sub g) i = some (s.h g) := h.depth g hg
+  have nfg : ∀ i ∈ s.cl g, NT.depthOf (s.sub f) i = none := fun i hi =>
+    depthOf_none _ _ (by rw [h.ids f hf]; exact fun c => hdisfg i c hi)
+  have ngf : ∀ i ∈ s.cl f, NT.depthOf (s.sub g) i = none := fun i hi =>
+    depthOf_none _ _ (by rw [h.ids g hg]; exact hdisfg i hi)
+  refine ⟨upgma_join_invariant d0 s f g h.inv hf hg hfg, ?_, ?_, ?_, ?_, ?_, ?_, ?_⟩
+  · -- ids
+    intro k hk
+    rcases hmemP k hk with hk' | rfl
+    · rw [(hnew k hk').1, (hnew k hk').2.1]; exact h.ids k (hsub k hk').1
+    · rw [clnew, subnew]; simp [NT.leafIds, h.ids f hf, h.ids g hg]
+  · -- nodup
+    intro k hk
+    rcases hmemP k hk with hk' | rfl
+    · rw [(hnew k hk').1]; exact h.nodupcl k (hsub k hk').1
+    · rw [clnew]
+      exact List.nodup_append.mpr ⟨h.nodupcl f hf, h.nodupcl g hg, fun a ha b hb e => hdisfg a ha (e ▸ hb)⟩
+  · -- disjoint
+    intro a ha b hb hab i hi
+    rcases hmemP a ha with ha' | rfl <;> rcases hmemP b hb with hb' | rfl
+    · rw [(hnew a ha').1] at hi; rw [(hnew b hb').1]
+      exact h.disj a (hsub a ha').1 b (hsub b hb').1 hab i hi
+    · rw [(hnew a ha').1] at hi; rw [clnew]
+      intro c; rcases List.mem_append.mp c with c | c
+      · exact h.disj a (hsub a ha').1 f hf (hsub a ha').2.1 i hi c
+      · exact h.disj a (hsub a ha').1 g hg (hsub a ha').2.2.1 i hi c
+    · rw [clnew] at hi; rw [(hnew b hb').1]
+      rcases List.mem_append.mp hi with c | c
+      · exact h.disj f hf b (hsub b hb').1 (Ne.symm (hsub b hb').2.1) i c
+      · exact h.disj g hg b (hsub b hb').1 (Ne.symm (hsub b hb').2.2.1) i c
+    · exact absurd rfl hab
+  · -- cross
+    intro a ha b hb hab i hi j hj
+    rcases hmemP a ha with ha' | rfl <;> rcases hmemP b hb with hb' | rfl
+    · rw [(hnew a ha').1] at hi; rw [(hnew b hb').1] at hj; rw [dnn a ha' b hb']
+      exact h.cross a (hsub a ha').1 b (hsub b hb').1 hab i hi j hj
+    · rw [(hnew a ha').1] at hi; rw [clnew] at hj; rw [(dnk a ha').2]
+      obtain ⟨ha0, haf, hag, _⟩ := hsub a ha'
+      rcases List.mem_append.mp hj with c | c
+      · rw [h.cross a ha0 f hf haf i hi j c]; exact h.inv.symm a ha0 f hf
+      · rw [h.cross a ha0 g hg hag i hi j c, h.inv.symm a ha0 g hg]; exact (hsib a ha').symm
+    · rw [clnew] at hi; rw [(hnew b hb').1] at hj; rw [(dnk b hb').1]
+      obtain ⟨hb0, hbf, hbg, _⟩ := hsub b hb'
+      rcases List.mem_append.mp hi with c | c
+      · exact h.cross f hf b hb0 (Ne.symm hbf) i c j hj
+      · rw [h.cross g hg b hb0 (Ne.symm hbg) i c j hj]; exact (hsib b hb').symm
+    · exact absurd rfl hab
+  · -- inner
+    intro k hk i hi j hj hij
+    rcases hmemP k hk with hk' | rfl
+    · rw [(hnew k hk').1] at hi hj; rw [(hnew k hk').2.1]; exact h.inner k (hsub k hk').1 i hi j hj hij
+    · rw [clnew] at hi hj; rw [subnew]
+      rcases List.mem_append.mp hi with ci | ci <;> rcases List.mem_append.mp hj with cj | cj
+      · simp only [NT.dist, nf i ci, nf j cj]; exact h.inner f hf i ci j cj hij
+      · simp only [NT.dist, nf i ci, nfg j cj, ng j cj]
+        rw [h.cross f hf g hg hfg i ci j cj]
+        congr 1; simp only [Nat.cast_ofNat]; ring
+      · simp only [NT.dist, nfg i ci, nf j cj, ng i ci]
+        rw [h.cross g hg f hf (Ne.symm hfg) i ci j cj, h.inv.symm g hg f hf]
+        congr 1; simp only [Nat.cast_ofNat]; ring
+      · simp only [NT.dist, nfg i ci, nfg j cj]; exact h.inner g hg i ci j cj hij
+  · -- depth
+    intro k hk i hi
+    rcases hmemP k hk with hk' | rfl
+    · rw [(hnew k hk').1] at hi; rw [(hnew k hk').2.1, (hnew k hk').2.2]; exact h.depth k (hsub k hk').1 i hi
+    · rw [clnew] at hi; rw [subnew, hnewh]
+      rcases List.mem_append.mp hi with c | c
+      · simp only [NT.depthOf, nf i c]; congr 1; ring
+      · simp only [NT.depthOf, nfg i c, ng i c]; congr 1; ring
+  · -- cover
+    have e1 : (upJoin s f g).pool.flatMap (upJoin s f g).cl =
+        ((s.pool.erase f).erase g).flatMap s.cl ++ (s.cl f ++ s.cl g) := by
+      have : (upJoin s f g).pool = (s.pool.erase f).erase g ++ [s.next] := by simp [upJoin]
+      rw [this, List.flatMap_append]
+      congr 1
+      · apply List.flatMap_congr; intro k hk; exact (hnew k hk).1
+      · simp [clnew]
+    rw [e1]
+    have p1 := (pool_perm hf hg hfg).flatMap_right s.cl
+    refine List.Perm.trans ?_ (p1.symm.trans h.cover)
+    simp only [List.flatMap_cons]
+    exact List.perm_append_comm.trans (by rw [List.append_assoc])
+end upreal2
+
+
+section upreal3
+variable {α : Type} [Field α] [LinearOrder α] [CharZero α]
+
+theorem upgma_run_urel (d0 : Nat → Nat → α) (n : Nat)
+    (hu : ∀ i j k, i < n → j < n → k < n → i ≠ j → j ≠ k → i ≠ k → d0 i k ≤ max (d0 i j) (d0 j k)) :
+    ∀ (fuel : Nat) (s : UP α), URel d0 n s → URel d0 n (upRun fuel s)
+  | 0, s, h => h
+  | fuel + 1, s, h => by
+    simp only [upRun]
+    split
+    · apply upgma_run_urel d0 n hu fuel
+      unfold upStep
+      cases hp : upPick s with
+      | none => exact h
+      | some p =>
+        obtain ⟨f, g⟩ := p
+        obtain ⟨hf, hg, hfg⟩ := up_pick_mem s h.inv.nodup f g hp
+        exact upgma_join_urel d0 n hu s h f g hf hg hfg (upgma_pick_minimal s h.inv.symm f g hp)
+    · exact h
+
+/-- (d) `upgma_realises` — UPGMA inverts ultrametric distances.  Let `D` be the matrix as `upgma_tree` reads it (upper triangle,
+mirrored). If `D` satisfies the strong triangle inequality on the `n ≥ 1` taxa — as the distances of every ultrametric tree
+do — then `upgma_tree` returns a tree whose leaves are exactly the taxa, in which the path length between any two taxa is
+exactly `D`, and all of whose leaves are at one depth.  No tie-breaking assumption, no positivity assumption: with ties
+(polytomies in the source) any resolution the code picks still realises `D`. -/
+theorem upgma_realises (n : Nat) (M : Nat → Nat → α) (hn : 1 ≤ n)
+    (hu : ∀ i j k, i < n → j < n → k < n → i ≠ j → j ≠ k → i ≠ k →
+      (upInit n M).d i k ≤ max ((upInit n M).d i j) ((upInit n M).d j k)) :
+    ∃ r, upgmaTree n M = some r ∧ (NT.leafIds r).Perm (List.range n) ∧
+      (∀ i < n, ∀ j < n, i ≠ j → NT.dist r i j = some ((upInit n M).d i j)) ∧
+      ∃ H : α, ∀ i < n, NT.depthOf r i = some H := by
+  obtain ⟨r, hr⟩ := upgma_terminates n M hn
+  have hrel := upgma_run_urel (upInit n M).d n hu n _ (up_init_urel n M)
+  refine ⟨r, hr, ?_⟩
+  simp only [upgmaTree] at hr
+  split at hr
+  · rename_i k hk
+    injection hr with hr; subst hr
+    have hkp : k ∈ (upRun n (upInit n M)).pool := by rw [hk]; simp
+    have hcov := hrel.cover
+    rw [hk] at hcov
+    simp only [List.flatMap_cons, List.flatMap_nil, List.append_nil] at hcov
+    have hmem : ∀ i < n, i ∈ (upRun n (upInit n M)).cl k := fun i hi => hcov.mem_iff.mpr (List.mem_range.mpr hi)
+    refine ⟨by rw [hrel.ids k hkp]; exact hcov, ?_, ⟨_, fun i hi => hrel.depth k hkp i (hmem i hi)⟩⟩
+    intro i hi j hj hij
+    exact hrel.inner k hkp i (hmem i hi) j (hmem j hj) hij
+  · simp at hr
+end upreal3
+
+/-- non-vacuity: the ultrametric 0–1 at 2, {0,1}–2 at 4 -/
+example := upgma_realises (α := ℚ) 3 (fun a b => if a = b then 0 else if a + b = 1 then 2 else 4) (by decide) (by
+  intro i j k hi hj hk _ _ _
+  rcases (by omega : i = 0 ∨ i = 1 ∨ i = 2) with rfl | rfl | rfl <;>
+  rcases (by omega : j = 0 ∨ j = 1 ∨ j = 2) with rfl | rfl | rfl <;>
+  rcases (by omega : k = 0 ∨ k = 1 ∨ k = 2) with rfl | rfl | rfl <;>
+  simp [upInit] <;> norm_num)
+
+
+section njreal
+variable {α : Type} [Field α]
+
+namespace Aux
+theorem depthOf_some : ∀ (t : NT α) (i : Nat), i ∈ NT.leafIds t → ∃ x, NT.depthOf t i = some x
+  | .leaf j, i, h => by simp [NT.leafIds] at h; simp [NT.depthOf, h]
+  | .node f lf g lg, i, h => by
+    simp only [NT.leafIds, List.mem_append] at h
+    simp only [NT.depthOf]
+    cases hf : NT.depthOf f i with
+    | some x => exact ⟨_, rfl⟩
+    | none =>
+      rcases h with h | h
+      · obtain ⟨x, hx⟩ := depthOf_some f i h; rw [hx] at hf; cases hf
+      · obtain ⟨y, hy⟩ := depthOf_some g i h; rw [hy]; exact ⟨_, rfl⟩
+end Aux
+
+/-- "`f`, `g` hang on a common node": pendant lengths `Lf`, `Lg`, every other pool member `k` at `Lf + u k` resp. `Lg + u k` -/
+def Cherry (s : NJ α) (f g : Nat) : Prop :=
+  ∃ (Lf Lg : α) (u : Nat → α), s.d f g = Lf + Lg ∧
+    ∀ k ∈ (s.pool.erase f).erase g, s.d f k = Lf + u k ∧ s.d g k = Lg + u k
+
+/-- what NJ maintains on an input `d0` while every join is a cherry: the subtrees of the pool nodes partition the taxa, each
+realises `d0` between its own leaves, and `d0 i j = depth i + (stored distance) + depth j` across two pool nodes -/
+structure NRel (d0 : Nat → Nat → α) (n : Nat) (s : NJ α) : Prop where
+  inv : NJInv s
+  nodupl : ∀ k ∈ s.pool, (NT.leafIds (s.sub k)).Nodup
+  disj : ∀ a ∈ s.pool, ∀ b ∈ s.pool, a ≠ b → ∀ i ∈ NT.leafIds (s.sub a), i ∉ NT.leafIds (s.sub b)
+  cross : ∀ a ∈ s.pool, ∀ b ∈ s.pool, a ≠ b → ∀ i ∈ NT.leafIds (s.sub a), ∀ j ∈ NT.leafIds (s.sub b),
+    ∃ x y, NT.depthOf (s.sub a) i = some x ∧ NT.depthOf (s.sub b) j = some y ∧ d0 i j = x + s.d a b + y
+  inner : ∀ k ∈ s.pool, ∀ i ∈ NT.leafIds (s.sub k), ∀ j ∈ NT.leafIds (s.sub k), i ≠ j →
+    NT.dist (s.sub k) i j = some (d0 i j)
+  cover : (s.pool.flatMap fun k => NT.leafIds (s.sub k)).Perm (List.range n)
+
+theorem nj_init_nrel (n : Nat) (d : Nat → Nat → α) (hd : ∀ a < n, ∀ b < n, d a b = d b a) : NRel d n (njInit n d) where
+  inv := nj_init_inv n d hd
+  nodupl := fun k _ => by simp [njInit, NT.leafIds]
+  disj := fun a _ b _ hab i hi => by simp [njInit, NT.leafIds] at hi ⊢; rw [hi]; exact hab
+  cross := fun a _ b _ _ i hi j hj => by
+    simp [njInit, NT.leafIds] at hi hj; subst hi; subst hj
+    exact ⟨0, 0, by simp [njInit, NT.depthOf], by simp [njInit, NT.depthOf], by simp [njInit]⟩
+  inner := fun k _ i hi j hj hij => by simp [njInit, NT.leafIds] at hi hj; exact absurd (hi.trans hj.symm) hij
+  cover := by simp only [njInit, NT.leafIds]; rw [flatMap_single]
+
+/-- one join keeps `NRel` provided the joined pair has the two branch lengths `(Lf, Lg)` and the new node the distances `u`
+that a cherry gives (`nj_cherry_step`), or it is the final join of the last two nodes -/
+theorem nj_join_nrel (d0 : Nat → Nat → α) (n : Nat) (s : NJ α) (h : NRel d0 n s) (f g : Nat)
+    (hf : f ∈ s.pool) (hg : g ∈ s.pool) (hfg : f ≠ g) (Lf Lg : α) (u : Nat → α)
+    (hl : njLengths s f g = (Lf, Lg)) (hsum : s.d f g = Lf + Lg)
+    (hu : ∀ k ∈ (s.pool.erase f).erase g, s.d f k = Lf + u k ∧ s.d g k = Lg + u k ∧ njNewDist s f g k = u k) :
+    NRel d0 n (njJoin s f g) := by
+  have hsub : ∀ k, k ∈ (s.pool.erase f).erase g → k ∈ s.pool ∧ k ≠ f ∧ k ≠ g ∧ k ≠ s.next := by
+    intro k hk
+    have h1 : k ∈ s.pool.erase f := List.mem_of_mem_erase hk
+    have hk0 : k ∈ s.pool := List.mem_of_mem_erase h1
+    exact ⟨hk0, fun e => by subst e; exact (List.Nodup.mem_erase_iff h.inv.nodup).mp h1 |>.1 rfl,
+      fun e => by subst e; exact (List.Nodup.mem_erase_iff (h.inv.nodup.erase _)).mp hk |>.1 rfl,
+      fun e => Nat.lt_irrefl _ (e ▸ h.inv.fresh k hk0)⟩
+  have hmemP : ∀ k, k ∈ (njJoin s f g).pool → k ∈ (s.pool.erase f).erase g ∨ k = s.next := by
+    intro k hk; simpa [njJoin] using hk
+  have subk : ∀ k ∈ (s.pool.erase f).erase g, (njJoin s f g).sub k = s.sub k :=
+    fun k hk => by simp [njJoin, (hsub k hk).2.2.2]
+  have subnew : (njJoin s f g).sub s.next = .node (s.sub f) Lf (s.sub g) Lg := by simp [njJoin, hl]
+  have dnn : ∀ a ∈ (s.pool.erase f).erase g, ∀ b ∈ (s.pool.erase f).erase g, (njJoin s f g).d a b = s.d a b :=
+    fun a ha b hb => by simp [njJoin, (hsub a ha).2.2.2, (hsub b hb).2.2.2]
+  have dnk : ∀ k ∈ (s.pool.erase f).erase g, (njJoin s f g).d s.next k = u k ∧ (njJoin s f g).d k s.next = u k :=
+    fun k hk => by simp [njJoin, (hsub k hk).2.2.2, (hu k hk).2.2]
+  have hdisfg := h.disj f hf g hg hfg
+  have nfg : ∀ i ∈ NT.leafIds (s.sub g), NT.depthOf (s.sub f) i = none := fun i hi =>
+    depthOf_none _ _ (fun c => hdisfg i c hi)
+  have ngf : ∀ i ∈ NT.leafIds (s.sub f), NT.depthOf (s.sub g) i = none := fun i hi =>
+    depthOf_none _ _ (hdisfg i hi)
+  have lnew : NT.leafIds ((njJoin s f g).sub s.next) = NT.leafIds (s.sub f) ++ NT.leafIds (s.sub g) := by
+    rw [subnew]; rfl
+  refine ⟨nj_join_inv s f g h.inv hf hg hfg, ?_, ?_, ?_, ?_, ?_⟩
+  · intro k hk
+    rcases hmemP k hk with hk' | rfl
+    · rw [subk k hk']; exact h.nodupl k (hsub k hk').1
+    · rw [lnew]
+      exact List.nodup_append.mpr ⟨h.nodupl f hf, h.nodupl g hg, fun a ha b hb e => hdisfg a ha (e ▸ hb)⟩
+  · intro a ha b hb hab i hi
+    rcases hmemP a ha with ha' | rfl <;> rcases hmemP b hb with hb' | rfl
+    · rw [subk a ha'] at hi; rw [subk b hb']
+      exact h.disj a (hsub a ha').1 b (hsub b hb').1 hab i hi
+    · rw [subk a ha'] at hi; rw [lnew]
+      intro c; rcases List.mem_append.mp c with c | c
+      · exact h.disj a (hsub a ha').1 f hf (hsub a ha').2.1 i hi c
+      · exact h.disj a (hsub a ha').1 g hg (hsub a ha').2.2.1 i hi c
+    · rw [lnew] at hi; rw [subk b hb']
+      rcases List.mem_append.mp hi with c | c
+      · exact h.disj f hf b (hsub b hb').1 (Ne.symm (hsub b hb').2.1) i c
+      · exact h.disj g hg b (hsub b hb').1 (Ne.symm (hsub b hb').2.2.1) i c
+    · exact absurd rfl hab
+  · intro a ha b hb hab i hi j hj
+    rcases hmemP a ha with ha' | rfl <;> rcases hmemP b hb with hb' | rfl
+    · rw [subk a ha'] at hi ⊢; rw [subk b hb'] at hj ⊢; rw [dnn a ha' b hb']
+      exact h.cross a (hsub a ha').1 b (hsub b hb').1 hab i hi j hj
+    · rw [subk a ha'] at hi ⊢; rw [lnew] at hj; rw [subnew, (dnk a ha').2]
+      obtain ⟨ha0, haf, hag, _⟩ := hsub a ha'
+      rcases List.mem_append.mp hj with c | c
+      · obtain ⟨x, y, hx, hy, e⟩ := h.cross a ha0 f hf haf i hi j c
+        refine ⟨x, y + Lf, hx, by simp [NT.depthOf, hy], ?_⟩
+        rw [e, h.inv.symm a ha0 f hf, (hu a ha').1]; ring
+      · obtain ⟨x, y, hx, hy, e⟩ := h.cross a ha0 g hg hag i hi j c
+        refine ⟨x, y + Lg, hx, by simp [NT.depthOf, nfg j c, hy], ?_⟩
+        rw [e, h.inv.symm a ha0 g hg, (hu a ha').2.1]; ring
+    · rw [lnew] at hi; rw [subk b hb'] at hj ⊢; rw [subnew, (dnk b hb').1]
+      obtain ⟨hb0, hbf, hbg, _⟩ := hsub b hb'
+      rcases List.mem_append.mp hi with c | c
+      · obtain ⟨x, y, hx, hy, e⟩ := h.cross f hf b hb0 (Ne.symm hbf) i c j hj
+        refine ⟨x + Lf, y, by simp [NT.depthOf, hx], hy, ?_⟩
+        rw [e, (hu b hb').1]; ring
+      · obtain ⟨x, y, hx, hy, e⟩ := h.cross g hg b hb0 (Ne.symm hbg) i c j hj
+        refine ⟨x + Lg, y, by simp [NT.depthOf, nfg i c, hx], hy, ?_⟩
+        rw [e, (hu b hb').2.1]; ring
+    · exact absurd rfl hab
+  · intro k hk i hi j hj hij
+    rcases hmemP k hk with hk' | rfl
+    · rw [subk k hk'] at hi hj ⊢; exact h.inner k (hsub k hk').1 i hi j hj hij
+    · rw [lnew] at hi hj; rw [subnew]
+      rcases List.mem_append.mp hi with ci | ci <;> rcases List.mem_append.mp hj with cj | cj
+      · obtain ⟨x, hx⟩ := depthOf_some _ _ ci
+        obtain ⟨y, hy⟩ := depthOf_some _ _ cj
+        simp only [NT.dist, hx, hy]; exact h.inner f hf i ci j cj hij
+      · obtain ⟨x, y, hx, hy, e⟩ := h.cross f hf g hg hfg i ci j cj
+        simp only [NT.dist, hx, nfg j cj, hy]
+        rw [e, hsum]; congr 1; ring
+      · obtain ⟨x, y, hx, hy, e⟩ := h.cross g hg f hf (Ne.symm hfg) i ci j cj
+        simp only [NT.dist, nfg i ci, hy, hx]
+        rw [e, h.inv.symm g hg f hf, hsum]; congr 1; ring
+      · simp only [NT.dist, nfg i ci, nfg j cj]; exact h.inner g hg i ci j cj hij
+  · have e1 : ((njJoin s f g).pool.flatMap fun k => NT.leafIds ((njJoin s f g).sub k)) =
+        (((s.pool.erase f).erase g).flatMap fun k => NT.leafIds (s.sub k)) ++
+          (NT.leafIds (s.sub f) ++ NT.leafIds (s.sub g)) := by
+      have : (njJoin s f g).pool = (s.pool.erase f).erase g ++ [s.next] := by simp [njJoin]
+      rw [this, List.flatMap_append]
+      congr 1
+      · apply List.flatMap_congr; intro k hk; rw [subk k hk]
+      · simp [lnew]
+    rw [e1]
+    have p1 := (pool_perm hf hg hfg).flatMap_right (fun k => NT.leafIds (s.sub k))
+    refine List.Perm.trans ?_ (p1.symm.trans h.cover)
+    simp only [List.flatMap_cons]
+    exact List.perm_append_comm.trans (by rw [List.append_assoc])
+end njreal
+
+section njreal2
+variable {α : Type} [Field α] [LinearOrder α] [CharZero α]
+
+theorem nj_step_nrel (d0 : Nat → Nat → α) (n : Nat)
+    (hch : ∀ s : NJ α, NRel d0 n s → s.pool.length > 2 → ∀ f g, njPick s = some (f, g) → Cherry s f g)
+    (s : NJ α) (h : NRel d0 n s) : NRel d0 n (njStep s) := by
+  unfold njStep
+  cases hp : njPick s with
+  | none => exact h
+  | some p =>
+    obtain ⟨f, g⟩ := p
+    obtain ⟨hf, hg, hfg⟩ := nj_pick_mem s h.inv.nodup f g hp
+    by_cases hn : s.pool.length > 2
+    · obtain ⟨Lf, Lg, u, hsum, hu⟩ := hch s h hn f g hp
+      obtain ⟨hl, hd⟩ := nj_cherry_step s f g h.inv hf hg hfg hn Lf Lg u hsum hu
+      exact nj_join_nrel d0 n s h f g hf hg hfg Lf Lg u hl hsum (fun k hk => ⟨(hu k hk).1, (hu k hk).2, hd k hk⟩)
+    · have hlen : ((s.pool.erase f).erase g).length = s.pool.length - 2 := by
+        rw [List.length_erase_of_mem ((List.mem_erase_of_ne (Ne.symm hfg)).mpr hg), List.length_erase_of_mem hf]; omega
+      have hnil : (s.pool.erase f).erase g = [] := List.length_eq_zero_iff.mp (by rw [hlen]; omega)
+      have h2 : ((2 : Nat) : α) ≠ 0 := by exact_mod_cast (two_ne_zero : (2 : Nat) ≠ 0)
+      refine nj_join_nrel d0 n s h f g hf hg hfg (s.d f g / ((2 : Nat) : α)) (s.d f g / ((2 : Nat) : α)) (fun _ => 0)
+        (by simp [njLengths, hn]) (by field_simp; ring) (fun k hk => by rw [hnil] at hk; simp at hk)
+
+/-- (d) **partial** — the induction over contractions of neighbour joining's correctness, with the consistency lemma as its only
+hypothesis.  If in every state the run can reach (`NRel`: the invariant below) with more than two pool nodes the Q-minimal
+pair the code picks is a cherry (`hch`), then for `n ≥ 1` taxa `nj_tree` returns a tree whose leaves are exactly the taxa
+and in which the path length between any two taxa is exactly the input distance: NJ inverts the matrix, branch lengths
+included.  MISSING for the unconditional clause: `hch` itself for additive input with positive internal edge lengths (the
+cherry-picking lemma of Saitou–Nei / Studier–Keppler), and uniqueness of the tree realising an additive metric (to conclude
+"isomorphic to the source tree" from "same path lengths"). -/
+theorem nj_realises_of_cherry_picking_partial (n : Nat) (d : Nat → Nat → α) (hd : ∀ a < n, ∀ b < n, d a b = d b a) (hn : 1 ≤ n)
+    (hch : ∀ s : NJ α, NRel d n s → s.pool.length > 2 → ∀ f g, njPick s = some (f, g) → Cherry s f g) :
+    ∃ r, njTree n d = some r ∧ (NT.leafIds r).Perm (List.range n) ∧
+      ∀ i < n, ∀ j < n, i ≠ j → NT.dist r i j = some (d i j) := by
+  have run : ∀ (fuel : Nat) (s : NJ α), NRel d n s → NRel d n (njRun fuel s) := by
+    intro fuel
+    induction fuel with
+    | zero => intro s h; exact h
+    | succ k ih =>
+      intro s h
+      simp only [njRun]
+      split
+      · exact ih _ (nj_step_nrel d n hch s h)
+      · exact h
+  obtain ⟨r, hr⟩ := nj_terminates n d hd hn
+  have hrel := run n _ (nj_init_nrel n d hd)
+  refine ⟨r, hr, ?_⟩
+  simp only [njTree] at hr
+  split at hr
+  · rename_i k hk
+    injection hr with hr; subst hr
+    have hkp : k ∈ (njRun n (njInit n d)).pool := by rw [hk]; simp
+    have hcov := hrel.cover
+    rw [hk] at hcov
+    simp only [List.flatMap_cons, List.flatMap_nil, List.append_nil] at hcov
+    have hmem : ∀ i < n, i ∈ NT.leafIds ((njRun n (njInit n d)).sub k) :=
+      fun i hi => hcov.mem_iff.mpr (List.mem_range.mpr hi)
+    exact ⟨hcov, fun i hi j hj hij => hrel.inner k hkp i (hmem i hi) j (hmem j hj) hij⟩
+  · simp at hr
+end njreal2
+
+
+section njthree
+variable {α : Type} [Field α] [LinearOrder α] [CharZero α]
+
+namespace Aux
+theorem leafIds_ne_nil {α : Type} : ∀ t : NT α, NT.leafIds t ≠ []
+  | .leaf i => by simp [NT.leafIds]
+  | .node f _ g _ => by simp [NT.leafIds, leafIds_ne_nil f]
+
+theorem length_le_flatMap {β : Type} (F : Nat → List β) (hF : ∀ k, F k ≠ []) : ∀ l : List Nat, l.length ≤ (l.flatMap F).length
+  | [] => by simp
+  | x :: l => by
+    have := length_le_flatMap F hF l
+    have hx := List.length_pos_iff.mpr (hF x)
+    simp only [List.flatMap_cons, List.length_append, List.length_cons]; omega
+end Aux
+
+/-- the pool never holds more nodes than there are taxa -/
+theorem nrel_pool_le (d0 : Nat → Nat → α) (n : Nat) (s : NJ α) (h : NRel d0 n s) : s.pool.length ≤ n := by
+  have := length_le_flatMap (fun k => NT.leafIds (s.sub k)) (fun k => leafIds_ne_nil _) s.pool
+  rw [h.cover.length_eq, List.length_range] at this
+  exact this
+
+/-- with three nodes in the pool every pair is a cherry (three points always fit a star) -/
+theorem cherry_of_three (s : NJ α) (hs : ∀ a ∈ s.pool, ∀ b ∈ s.pool, s.d a b = s.d b a) (hnd : s.pool.Nodup)
+    (h3 : s.pool.length = 3) (f g : Nat) (hf : f ∈ s.pool) (hg : g ∈ s.pool) (hfg : f ≠ g) : Cherry s f g := by
+  have hlen : ((s.pool.erase f).erase g).length = 1 := by
+    rw [List.length_erase_of_mem ((List.mem_erase_of_ne (Ne.symm hfg)).mpr hg), List.length_erase_of_mem hf]; omega
+  obtain ⟨k, hk⟩ := List.length_eq_one_iff.mp hlen
+  have h2 : (2 : α) ≠ 0 := by exact_mod_cast (show (2 : Nat) ≠ 0 by decide)
+  refine ⟨(s.d f g + s.d f k - s.d g k) / 2, (s.d f g + s.d g k - s.d f k) / 2,
+    fun _ => (s.d f k + s.d g k - s.d f g) / 2, by field_simp; ring, ?_⟩
+  intro k' hk'
+  rw [hk] at hk'; simp at hk'; subst hk'
+  constructor <;> (field_simp; ring)
+
+/-- (d) unconditional for up to three taxa: `nj_tree` inverts every symmetric matrix on `n ≤ 3` taxa (any three points are
+realised by a star) — an instance where the hypothesis of `nj_realises_of_cherry_picking_partial` is discharged -/
+theorem nj_realises_three (n : Nat) (d : Nat → Nat → α) (hd : ∀ a < n, ∀ b < n, d a b = d b a) (hn : 1 ≤ n) (h3 : n ≤ 3) :
+    ∃ r, njTree n d = some r ∧ (NT.leafIds r).Perm (List.range n) ∧
+      ∀ i < n, ∀ j < n, i ≠ j → NT.dist r i j = some (d i j) := by
+  apply nj_realises_of_cherry_picking_partial n d hd hn
+  intro s h hlen f g hp
+  obtain ⟨hf, hg, hfg⟩ := nj_pick_mem s h.inv.nodup f g hp
+  have := nrel_pool_le d n s h
+  exact cherry_of_three s h.inv.symm h.inv.nodup (by omega) f g hf hg hfg
+end njthree
+
+example := nj_realises_three (α := ℚ) 3 (fun a b => if a = b then 0 else (a + b : ℚ))
+  (fun a _ b _ => by by_cases h : a = b <;> simp [h, eq_comm, add_comm]) (by decide) (by decide)
+
+
+/-! ### ultrametric source trees: their distances satisfy the strong triangle inequality, so UPGMA inverts them -/
+section ultratree
+variable {α : Type} [Field α] [LinearOrder α] [IsStrictOrderedRing α]
+
+/-- height of the root above its first leaf -/
+def NT.height : NT α → α
+  | .leaf _ => 0
+  | .node f lf _ _ => NT.height f + lf
+
+/-- an ultrametric rooted binary tree: at every node both sides reach the same height; edge lengths are not negative -/
+def NT.Ultra : NT α → Prop
+  | .leaf _ => True
+  | .node f lf g lg => NT.Ultra f ∧ NT.Ultra g ∧ 0 ≤ lf ∧ 0 ≤ lg ∧ NT.height f + lf = NT.height g + lg
+
+/-- path length between two taxa of a tree, 0 if there is none: the matrix a tree hands to UPGMA / NJ -/
+def NT.dmat (t : NT α) (i j : Nat) : α := match NT.dist t i j with | some x => x | none => 0
+
+namespace Aux
+theorem ultra_height_nonneg : ∀ t : NT α, NT.Ultra t → 0 ≤ NT.height t
+  | .leaf _, _ => le_refl _
+  | .node f lf g lg, h => add_nonneg (ultra_height_nonneg f h.1) h.2.2.1
+
+theorem ultra_depth : ∀ (t : NT α), NT.Ultra t → ∀ i ∈ NT.leafIds t, NT.depthOf t i = some (NT.height t)
+  | .leaf j, _, i, hi => by simp [NT.leafIds] at hi; simp [NT.depthOf, hi, NT.height]
+  | .node f lf g lg, h, i, hi => by
+    simp only [NT.leafIds, List.mem_append] at hi
+    simp only [NT.depthOf, NT.height]
+    cases hf : NT.depthOf f i with
+    | some x =>
+      by_cases hm : i ∈ NT.leafIds f
+      · rw [ultra_depth f h.1 i hm] at hf; injection hf with hf; rw [hf]
+      · rw [depthOf_none f i hm] at hf; cases hf
+    | none =>
+      have hm : i ∈ NT.leafIds g := by
+        rcases hi with hi | hi
+        · rw [ultra_depth f h.1 i hi] at hf; cases hf
+        · exact hi
+      rw [ultra_depth g h.2.1 i hm]; simp only; rw [h.2.2.2.2]
+
+/-- inside an ultrametric tree no two leaves are further apart than twice its height -/
+theorem ultra_dist_le : ∀ (t : NT α), NT.Ultra t → (NT.leafIds t).Nodup → ∀ i ∈ NT.leafIds t, ∀ j ∈ NT.leafIds t, i ≠ j →
+    ∃ x, NT.dist t i j = some x ∧ x ≤ 2 * NT.height t
+  | .leaf k, _, _, i, hi, j, hj, hij => by simp [NT.leafIds] at hi hj; exact absurd (hi.trans hj.symm) hij
+  | .node f lf g lg, h, hnd, i, hi, j, hj, hij => by
+    simp only [NT.leafIds] at hnd hi hj
+    have hnd' := List.nodup_append.mp hnd
+    have hdis : ∀ a ∈ NT.leafIds f, a ∉ NT.leafIds g := fun a ha hb => hnd'.2.2 a ha a hb rfl
+    have hfh := ultra_height_nonneg f h.1
+    have hgh := ultra_height_nonneg g h.2.1
+    simp only [NT.dist, NT.height]
+    rcases List.mem_append.mp hi with ci | ci <;> rcases List.mem_append.mp hj with cj | cj
+    · obtain ⟨x, hx, hle⟩ := ultra_dist_le f h.1 hnd'.1 i ci j cj hij
+      simp only [ultra_depth f h.1 i ci, ultra_depth f h.1 j cj, hx]
+      exact ⟨x, rfl, by linarith [h.2.2.1]⟩
+    · simp only [ultra_depth f h.1 i ci, depthOf_none f j (fun c => hdis j c cj), ultra_depth g h.2.1 j cj]
+      exact ⟨_, rfl, by linarith [h.2.2.2.2]⟩
+    · simp only [depthOf_none f i (fun c => hdis i c ci), ultra_depth f h.1 j cj, ultra_depth g h.2.1 i ci]
+      exact ⟨_, rfl, by linarith [h.2.2.2.2]⟩
+    · obtain ⟨x, hx, hle⟩ := ultra_dist_le g h.2.1 hnd'.2.1 i ci j cj hij
+      simp only [depthOf_none f i (fun c => hdis i c ci), depthOf_none f j (fun c => hdis j c cj), hx]
+      exact ⟨x, rfl, by linarith [h.2.2.2.1, h.2.2.2.2]⟩
+
+/-- across the root the distance is exactly twice the height -/
+theorem ultra_cross (f g : NT α) (lf lg : α) (h : NT.Ultra (.node f lf g lg)) (hnd : (NT.leafIds (.node f lf g lg)).Nodup)
+    (i j : Nat) (hc : (i ∈ NT.leafIds f ∧ j ∈ NT.leafIds g) ∨ (i ∈ NT.leafIds g ∧ j ∈ NT.leafIds f)) :
+    NT.dmat (.node f lf g lg) i j = 2 * NT.height (.node f lf g lg) := by
+  simp only [NT.leafIds] at hnd
+  have hnd' := List.nodup_append.mp hnd
+  have hdis : ∀ a ∈ NT.leafIds f, a ∉ NT.leafIds g := fun a ha hb => hnd'.2.2 a ha a hb rfl
+  simp only [NT.dmat, NT.dist, NT.height]
+  rcases hc with ⟨ci, cj⟩ | ⟨ci, cj⟩
+  · simp only [ultra_depth f h.1 i ci, depthOf_none f j (fun c => hdis j c cj), ultra_depth g h.2.1 j cj]
+    linarith [h.2.2.2.2]
+  · simp only [depthOf_none f i (fun c => hdis i c ci), ultra_depth f h.1 j cj, ultra_depth g h.2.1 i ci]
+    linarith [h.2.2.2.2]
+
+theorem dmat_left (f g : NT α) (lf lg : α) (i j : Nat) (hi : i ∈ NT.leafIds f) (hj : j ∈ NT.leafIds f) :
+    NT.dmat (.node f lf g lg) i j = NT.dmat f i j := by
+  obtain ⟨x, hx⟩ := depthOf_some f i hi
+  obtain ⟨y, hy⟩ := depthOf_some f j hj
+  simp [NT.dmat, NT.dist, hx, hy]
+
+theorem dmat_right (f g : NT α) (lf lg : α) (i j : Nat) (hi : i ∉ NT.leafIds f) (hj : j ∉ NT.leafIds f) :
+    NT.dmat (.node f lf g lg) i j = NT.dmat g i j := by
+  simp [NT.dmat, NT.dist, depthOf_none f i hi, depthOf_none f j hj]
+
+theorem dmat_le (t : NT α) (h : NT.Ultra t) (hnd : (NT.leafIds t).Nodup) (i j : Nat) (hi : i ∈ NT.leafIds t)
+    (hj : j ∈ NT.leafIds t) (hij : i ≠ j) : NT.dmat t i j ≤ 2 * NT.height t := by
+  obtain ⟨x, hx, hle⟩ := ultra_dist_le t h hnd i hi j hj hij
+  simp [NT.dmat, hx, hle]
+end Aux
+
+/-- (d) the distances of an ultrametric tree satisfy the strong triangle inequality -/
+theorem ultra_three_point : ∀ (t : NT α), NT.Ultra t → (NT.leafIds t).Nodup →
+    ∀ i ∈ NT.leafIds t, ∀ j ∈ NT.leafIds t, ∀ k ∈ NT.leafIds t, i ≠ j → j ≠ k → i ≠ k →
+      NT.dmat t i k ≤ max (NT.dmat t i j) (NT.dmat t j k)
+  | .leaf l, _, _, i, hi, j, hj, _, _, hij, _, _ => by
+    simp [NT.leafIds] at hi hj; exact absurd (hi.trans hj.symm) hij
+  | .node f lf g lg, h, hnd, i, hi, j, hj, k, hk, hij, hjk, hik => by
+    have hnd0 := hnd
+    simp only [NT.leafIds] at hnd hi hj hk
+    have hnd' := List.nodup_append.mp hnd
+    have hdis : ∀ a ∈ NT.leafIds f, a ∉ NT.leafIds g := fun a ha hb => hnd'.2.2 a ha a hb rfl
+    have top : ∀ a b, a ∈ NT.leafIds f ++ NT.leafIds g → b ∈ NT.leafIds f ++ NT.leafIds g → a ≠ b →
+        NT.dmat (.node f lf g lg) a b ≤ 2 * NT.height (.node f lf g lg) :=
+      fun a b ha hb hab => dmat_le _ h hnd0 a b (by simpa [NT.leafIds] using ha) (by simpa [NT.leafIds] using hb) hab
+    rcases List.mem_append.mp hi with ci | ci <;> rcases List.mem_append.mp hj with cj | cj <;>
+      rcases List.mem_append.mp hk with ck | ck
+    · rw [dmat_left f g lf lg i k ci ck, dmat_left f g lf lg i j ci cj, dmat_left f g lf lg j k cj ck]
+      exact ultra_three_point f h.1 hnd'.1 i ci j cj k ck hij hjk hik
+    · rw [ultra_cross f g lf lg h hnd0 i k (Or.inl ⟨ci, ck⟩), ultra_cross f g lf lg h hnd0 j k (Or.inl ⟨cj, ck⟩)]
+      exact le_max_right _ _
+    · rw [ultra_cross f g lf lg h hnd0 i j (Or.inl ⟨ci, cj⟩)]
+      exact le_trans (top i k hi hk hik) (le_max_left _ _)
+    · rw [ultra_cross f g lf lg h hnd0 i k (Or.inl ⟨ci, ck⟩), ultra_cross f g lf lg h hnd0 i j (Or.inl ⟨ci, cj⟩)]
+      exact le_max_left _ _
+    · rw [ultra_cross f g lf lg h hnd0 i k (Or.inr ⟨ci, ck⟩), ultra_cross f g lf lg h hnd0 i j (Or.inr ⟨ci, cj⟩)]
+      exact le_max_left _ _
+    · rw [ultra_cross f g lf lg h hnd0 i j (Or.inr ⟨ci, cj⟩)]
+      exact le_trans (top i k hi hk hik) (le_max_left _ _)
+    · rw [ultra_cross f g lf lg h hnd0 i k (Or.inr ⟨ci, ck⟩), ultra_cross f g lf lg h hnd0 j k (Or.inr ⟨cj, ck⟩)]
+      exact le_max_right _ _
+    · have ni := fun c => hdis i c ci; have nj := fun c => hdis j c cj; have nk := fun c => hdis k c ck
+      rw [dmat_right f g lf lg i k ni nk, dmat_right f g lf lg i j ni nj, dmat_right f g lf lg j k nj nk]
+      exact ultra_three_point g h.2.1 hnd'.2.1 i ci j cj k ck hij hjk hik
+end ultratree
+
+
+section ultratree2
+variable {α : Type} [Field α] [LinearOrder α] [IsStrictOrderedRing α]
+
+namespace Aux
+theorem dist_symm : ∀ (t : NT α) (i j : Nat), NT.dist t i j = NT.dist t j i
+  | .leaf _, _, _ => rfl
+  | .node f lf g lg, i, j => by
+    simp only [NT.dist]
+    cases hi : NT.depthOf f i <;> cases hj : NT.depthOf f j <;> simp only
+    · exact dist_symm g i j
+    · cases NT.depthOf g i <;> simp [add_comm]
+    · cases NT.depthOf g j <;> simp [add_comm]
+    · exact dist_symm f i j
+end Aux
+
+/-- (d) `upgma_inverts_ultrametric_tree` — UPGMA applied to the distances of an ultrametric tree.  For every ultrametric rooted
+binary tree `src` on the taxa `0 … n-1` (non-negative edge lengths; zero-length edges, i.e. unresolved nodes, allowed),
+`upgma_tree` run on the path-length matrix of `src` returns a tree on the same taxa in which every two taxa are exactly as far
+apart as in `src`, and which is again ultrametric (one depth for all leaves). -/
+theorem upgma_inverts_ultrametric_tree [CharZero α] (n : Nat) (src : NT α) (hu : NT.Ultra src)
+    (hnd : (NT.leafIds src).Nodup) (hl : (NT.leafIds src).Perm (List.range n)) :
+    ∃ r, upgmaTree n (NT.dmat src) = some r ∧ (NT.leafIds r).Perm (List.range n) ∧
+      (∀ i < n, ∀ j < n, i ≠ j → NT.dist r i j = NT.dist src i j) ∧
+      ∃ H : α, ∀ i < n, NT.depthOf r i = some H := by
+  have hmem : ∀ i, i < n → i ∈ NT.leafIds src := fun i hi => hl.mem_iff.mpr (List.mem_range.mpr hi)
+  have hn : 1 ≤ n := by
+    have := List.length_pos_iff.mpr (leafIds_ne_nil src)
+    rw [hl.length_eq, List.length_range] at this; exact this
+  have hD : ∀ i j, (upInit n (NT.dmat src)).d i j = NT.dmat src i j := by
+    intro i j
+    simp only [upInit]
+    split
+    · rfl
+    · simp only [NT.dmat, dist_symm src j i]
+  obtain ⟨r, hr, hp, hd, hH⟩ := upgma_realises n (NT.dmat src) hn (by
+    intro i j k hi hj hk hij hjk hik
+    rw [hD, hD, hD]
+    exact ultra_three_point src hu hnd i (hmem i hi) j (hmem j hj) k (hmem k hk) hij hjk hik)
+  refine ⟨r, hr, hp, ?_, hH⟩
+  intro i hi j hj hij
+  rw [hd i hi j hj hij, hD]
+  obtain ⟨x, hx, _⟩ := ultra_dist_le src hu hnd i (hmem i hi) j (hmem j hj) hij
+  simp [NT.dmat, hx]
+end ultratree2
+
+/-- non-vacuity: ((0:1,1:1):1,2:2) -/
+example := upgma_inverts_ultrametric_tree (α := ℚ) 3 (.node (.node (.leaf 0) 1 (.leaf 1) 1) 1 (.leaf 2) 2)
+  (by simp [NT.Ultra, NT.height]; norm_num) (by decide) (by decide)
+
+
+/-! ### the summaries at the driver's own type: both weightings, mean pairwise and mean nearest taxon -/
+section sumnat
+variable {κ α β : Type} [DecidableEq κ]
+variable [Zero α] [Add α] [Sub α] [Mul α] [Div α] [NatCast α] [LT α] [DecidableRel (α := α) (· < ·)]
+variable [Zero β] [Add β] [Sub β] [Mul β] [Div β] [NatCast β] [LT β] [DecidableRel (α := β) (· < ·)]
+
+namespace Aux
+theorem selVal_nat (φ : α → β) (hφ : IsNumHom φ) (w : Bool) (e : Entry κ α) : selVal w (mapE φ e) = φ (selVal w e) := by
+  cases w <;> simp [selVal, mapE, hφ.natCast]
+
+theorem meanOf_nat (φ : α → β) (hφ : IsNumHom φ) (norm : α) (l : List α) :
+    meanOf (φ norm) (l.map φ) = (meanOf norm l).map φ := by
+  simp only [meanOf, List.isEmpty_map, List.length_map]
+  split
+  · rfl
+  · simp only [Option.map_some, hφ.div, hφ.natCast, sum_hom φ hφ.zero hφ.add l]
+
+theorem minList_nat (φ : α → β) (hφ : IsNumHom φ) : ∀ (ds : List α) (m : α), minList (φ m) (ds.map φ) = φ (minList m ds)
+  | [], m => rfl
+  | d :: ds, m => by
+    simp only [List.map_cons, minList]
+    by_cases h : d < m
+    · have h' : φ d < φ m := (hφ.lt _ _).mp h
+      simp only [h, h', if_true]; exact minList_nat φ hφ ds d
+    · have h' : ¬ φ d < φ m := fun c => h ((hφ.lt _ _).mpr c)
+      simp only [h, h', if_false]; exact minList_nat φ hφ ds m
+
+theorem cellOf_nat (φ : α → β) (hφ : IsNumHom φ) (w : Bool) (tbl : List (Entry κ α)) (a b : κ) :
+    cellOf (selVal w) (tbl.map (mapE φ)) a b = φ (cellOf (selVal w) tbl a b) := by
+  simp only [cellOf, List.find?_map]
+  have hfun : ((fun e : Entry κ β => decide (e.a = a ∧ e.b = b)) ∘ mapE φ) = fun e : Entry κ α => decide (e.a = a ∧ e.b = b) := rfl
+  rw [hfun]
+  cases tbl.find? (fun e => decide (e.a = a ∧ e.b = b)) with
+  | none => simp [hφ.zero]
+  | some e => simp [selVal_nat φ hφ]
+
+theorem meanNearest_nat (φ : α → β) (hφ : IsNumHom φ) (cell : κ → κ → α) (cell' : κ → κ → β)
+    (hc : ∀ a b, cell' a b = φ (cell a b)) (norm : α) (keep : κ → Bool) (taxa : List κ) :
+    meanNearest cell' (φ norm) keep taxa = (meanNearest cell norm keep taxa).map φ := by
+  simp only [meanNearest]
+  rw [← meanOf_nat φ hφ]
+  congr 1
+  rw [List.map_filterMap]
+  apply List.filterMap_congr
+  intro a _
+  cases (taxa.filter keep).filter (fun b => b ≠ a) with
+  | nil => rfl
+  | cons b bs =>
+    simp only [Option.map_some, hc]
+    rw [← minList_nat φ hφ, List.map_map]
+    congr 2
+    exact List.map_congr_left (fun c _ => by simp [hc])
+
+theorem pairValues_nat (φ : α → β) (hφ : IsNumHom φ) (w : Bool) (keep : κ → Bool) (es : List (Entry κ α)) :
+    pairValues (selVal w) keep (es.map (mapE φ)) = (pairValues (selVal w) keep es).map φ := by
+  simp only [pairValues, List.filter_map, List.map_map]
+  apply List.map_congr_left
+  intro e _
+  exact selVal_nat φ hφ w e
+
+theorem meanPairwise_nat (φ : α → β) (hφ : IsNumHom φ) (w : Bool) (norm : α) (keep : κ → Bool) (es : List (Entry κ α)) :
+    meanPairwise (selVal w) (φ norm) keep (es.map (mapE φ)) = (meanPairwise (selVal w) norm keep es).map φ := by
+  simp only [meanPairwise, pairValues_nat φ hφ, meanOf_nat φ hφ]
+end Aux
+end sumnat
+
+
+/-- the path value a weighting reads: the length (`weighted`) or the number of edges -/
+def gsel {α : Type} [NatCast α] (weighted : Bool) (r : α × Nat × Nat) : α := if weighted then r.1 else ((r.2.1 : Nat) : α)
+
+namespace Aux
+theorem selVal_gsel {κ α : Type} [NatCast α] (w : Bool) :
+    (selVal w : Entry κ α → α) = fun e => gsel w (e.d, e.steps, e.mrca) := by
+  funext e; cases w <;> simp [selVal, gsel]
+
+theorem map_rat_val {γ : Type} (o : Option VFrac) : (o.map VFrac.val).map toRat = o.map VFrac.rat := by
+  cases o <;> rfl
+end Aux
+
+/-- (b, at the driver's own type, both weightings) `frac_mean_pairwise_both`: what `drv_c14` prints for `summ mpd` — weighted or
+edge-count, any filter, any normalisation factor that denotes a number — denotes the explicit mean of the unique-path
+values (computed in ℚ) over the retained unordered pairs; `Null` exactly when no pair is retained. -/
+theorem frac_mean_pairwise_both (w : Bool) (t : T) (h : Good taxonKey t) (norm : Frac) (hn : norm.den ≠ 0) (keep : Nat → Bool) :
+    (meanPairwise (selVal w) norm keep (entries fracLen taxonKey t)).map toRat =
+      let L := ((pairsOf (t.leaves.map taxonKey)).filter fun p => keep p.1 && keep p.2).map
+        (pathVal (gsel w) ratLen taxonKey t)
+      if L = [] then none else some ((L.sum / toRat norm) / (L.length : ℚ)) := by
+  have hq := mean_pairwise_spec (α := ℚ) (gsel w) ratLen taxonKey t h (toRat norm) keep
+  simp only at hq
+  rw [← hq, ← selVal_gsel]
+  have e1 : entries fracLen taxonKey t = (entries fracLenV taxonKey t).map (mapE VFrac.val) :=
+    entries_nat VFrac.val VFrac.val_hom fracLenV taxonKey t
+  have e2 : entries ratLen taxonKey t = (entries fracLenV taxonKey t).map (mapE VFrac.rat) :=
+    entries_nat VFrac.rat VFrac.rat_hom fracLenV taxonKey t
+  let normV : VFrac := ⟨norm, hn⟩
+  have a1 := meanPairwise_nat VFrac.val VFrac.val_num w normV keep (entries fracLenV taxonKey t)
+  have a2 := meanPairwise_nat VFrac.rat VFrac.rat_num w normV keep (entries fracLenV taxonKey t)
+  rw [← e1] at a1
+  rw [← e2] at a2
+  change meanPairwise (selVal w) norm keep (entries fracLen taxonKey t) = _ at a1
+  change meanPairwise (selVal w) (toRat norm) keep (entries ratLen taxonKey t) = _ at a2
+  rw [a1, a2, map_rat_val (γ := Nat)]
+
+/-- (b, at the driver's own type, both weightings) `frac_mntd`: what `drv_c14` prints for `summ mntd` denotes the mean, over the
+retained taxa, of the minimum unique-path value (computed in ℚ) to the other retained taxa. -/
+theorem frac_mntd (w : Bool) (t : T) (h : Good taxonKey t) (norm : Frac) (hn : norm.den ≠ 0) (keep : Nat → Bool) :
+    (meanNearest (cellOf (selVal w) (table fracLen taxonKey t)) norm keep (mapped taxonKey t)).map toRat =
+      meanNearest (fun a b => pathVal (gsel w) ratLen taxonKey t (a, b)) (toRat norm) keep (mapped taxonKey t) := by
+  have hq := mntd_spec (α := ℚ) (gsel w) ratLen taxonKey t h (toRat norm) keep
+  rw [← hq, ← selVal_gsel]
+  have e1 : table fracLen taxonKey t = (table fracLenV taxonKey t).map (mapE VFrac.val) :=
+    table_nat VFrac.val VFrac.val_hom fracLenV taxonKey t
+  have e2 : table ratLen taxonKey t = (table fracLenV taxonKey t).map (mapE VFrac.rat) :=
+    table_nat VFrac.rat VFrac.rat_hom fracLenV taxonKey t
+  let normV : VFrac := ⟨norm, hn⟩
+  have a1 := meanNearest_nat VFrac.val VFrac.val_num (cellOf (selVal w) (table fracLenV taxonKey t))
+    (cellOf (selVal w) (table fracLen taxonKey t)) (fun a b => by rw [e1]; exact cellOf_nat VFrac.val VFrac.val_num w _ a b)
+    normV keep (mapped taxonKey t)
+  have a2 := meanNearest_nat VFrac.rat VFrac.rat_num (cellOf (selVal w) (table fracLenV taxonKey t))
+    (cellOf (selVal w) (table ratLen taxonKey t)) (fun a b => by rw [e2]; exact cellOf_nat VFrac.rat VFrac.rat_num w _ a b)
+    normV keep (mapped taxonKey t)
+  change meanNearest _ norm keep _ = _ at a1
+  change meanNearest _ (toRat norm) keep _ = _ at a2
+  rw [a1, a2, map_rat_val (γ := Nat)]
+
+example := frac_mean_pairwise_both false exTree (by unfold Good; decide) Frac.one (by decide) (fun _ => true)
+example := frac_mntd true exTree (by unfold Good; decide) Frac.one (by decide) (fun k => k != 2)
+example := frac_mntd false exTree (by unfold Good; decide) (Frac.ofNat 7) (by decide) (fun _ => true)
+
+
+/-! ### uniqueness: an ultrametric tree with positive internal edges is determined by its distances -/
+section unique
+variable {α : Type}
+
+/-- same tree up to swapping the two children of any node (edge lengths move with their child) -/
+inductive NT.Iso : NT α → NT α → Prop
+  | leaf (i : Nat) : NT.Iso (.leaf i) (.leaf i)
+  | same {f g f' g' : NT α} (lf lg : α) : NT.Iso f f' → NT.Iso g g' → NT.Iso (.node f lf g lg) (.node f' lf g' lg)
+  | swap {f g f' g' : NT α} (lf lg : α) : NT.Iso f g' → NT.Iso g f' → NT.Iso (.node f lf g lg) (.node f' lg g' lf)
+
+variable [Field α] [LinearOrder α] [IsStrictOrderedRing α]
+
+/-- every edge above an internal node is strictly positive ("positive internal edge lengths") -/
+def NT.PosInternal : NT α → Prop
+  | .leaf _ => True
+  | .node f lf g lg => NT.PosInternal f ∧ NT.PosInternal g ∧
+      ((∃ i, f = .leaf i) ∨ 0 < lf) ∧ ((∃ i, g = .leaf i) ∨ 0 < lg)
+
+/-- all leaves of `t` are at depth `H` -/
+def NT.Level (t : NT α) (H : α) : Prop := ∀ i ∈ NT.leafIds t, NT.depthOf t i = some H
+
+namespace Aux
+theorem iso_mem {r s : NT α} (h : NT.Iso r s) : ∀ i, i ∈ NT.leafIds r ↔ i ∈ NT.leafIds s := by
+  induction h with
+  | leaf i => intro j; rfl
+  | same lf lg _ _ ih1 ih2 => intro i; simp [NT.leafIds, ih1 i, ih2 i]
+  | swap lf lg _ _ ih1 ih2 => intro i; simp [NT.leafIds, ih1 i, ih2 i, or_comm]
+
+theorem level_children (f g : NT α) (lf lg H : α) (hnd : (NT.leafIds (.node f lf g lg)).Nodup)
+    (h : NT.Level (.node f lf g lg) H) : NT.Level f (H - lf) ∧ NT.Level g (H - lg) := by
+  simp only [NT.leafIds] at hnd
+  have hnd' := List.nodup_append.mp hnd
+  constructor
+  · intro i hi
+    have := h i (by simp [NT.leafIds, hi])
+    obtain ⟨x, hx⟩ := depthOf_some f i hi
+    simp only [NT.depthOf, hx, Option.some.injEq] at this
+    rw [hx]; congr 1; linarith
+  · intro i hi
+    have hni : i ∉ NT.leafIds f := fun c => hnd'.2.2 i c i hi rfl
+    have := h i (by simp [NT.leafIds, hi])
+    obtain ⟨x, hx⟩ := depthOf_some g i hi
+    simp only [NT.depthOf, depthOf_none f i hni, hx, Option.some.injEq] at this
+    rw [hx]; congr 1; linarith
+
+/-- in a level tree, leaves on different sides of the root are `2H` apart -/
+theorem level_cross (f g : NT α) (lf lg H : α) (hnd : (NT.leafIds (.node f lf g lg)).Nodup)
+    (h : NT.Level (.node f lf g lg) H) (i j : Nat) (hi : i ∈ NT.leafIds f) (hj : j ∈ NT.leafIds g) :
+    NT.dmat (.node f lf g lg) i j = 2 * H := by
+  have hc := level_children f g lf lg H hnd h
+  simp only [NT.leafIds] at hnd
+  have hnd' := List.nodup_append.mp hnd
+  have hnj : j ∉ NT.leafIds f := fun c => hnd'.2.2 j c j hj rfl
+  simp only [NT.dmat, NT.dist, hc.1 i hi, depthOf_none f j hnj, hc.2 j hj]
+  ring
+
+theorem ultra_level (t : NT α) (h : NT.Ultra t) : NT.Level t (NT.height t) := fun i hi => ultra_depth t h i hi
+
+/-- the two sides of the root of a positive ultrametric tree are told apart by the distance: `2·height` exactly across -/
+theorem pos_within_lt (f g : NT α) (lf lg : α) (h : NT.Ultra (.node f lf g lg)) (hp : NT.PosInternal (.node f lf g lg))
+    (hnd : (NT.leafIds (.node f lf g lg)).Nodup) (i j : Nat) (hij : i ≠ j)
+    (hs : (i ∈ NT.leafIds f ∧ j ∈ NT.leafIds f) ∨ (i ∈ NT.leafIds g ∧ j ∈ NT.leafIds g)) :
+    NT.dmat (.node f lf g lg) i j < 2 * NT.height (.node f lf g lg) := by
+  simp only [NT.leafIds] at hnd
+  have hnd' := List.nodup_append.mp hnd
+  have hdis : ∀ a ∈ NT.leafIds f, a ∉ NT.leafIds g := fun a ha hb => hnd'.2.2 a ha a hb rfl
+  rcases hs with ⟨ci, cj⟩ | ⟨ci, cj⟩
+  · rw [dmat_left f g lf lg i j ci cj]
+    have hle := dmat_le f h.1 hnd'.1 i j ci cj hij
+    have hpos : 0 < lf := by
+      rcases hp.2.2.1 with ⟨k, rfl⟩ | hpos
+      · simp [NT.leafIds] at ci cj; exact absurd (ci.trans cj.symm) hij
+      · exact hpos
+    simp only [NT.height]; linarith
+  · rw [dmat_right f g lf lg i j (fun c => hdis i c ci) (fun c => hdis j c cj)]
+    have hle := dmat_le g h.2.1 hnd'.2.1 i j ci cj hij
+    have hpos : 0 < lg := by
+      rcases hp.2.2.2 with ⟨k, rfl⟩ | hpos
+      · simp [NT.leafIds] at ci cj; exact absurd (ci.trans cj.symm) hij
+      · exact hpos
+    simp only [NT.height]; rw [h.2.2.2.2]; linarith
+end Aux
+end unique
+
+
+section unique2
+variable {α : Type} [Field α] [LinearOrder α] [IsStrictOrderedRing α]
+
+/-- (d) `ultra_unique`: an ultrametric binary tree with positive internal edge lengths is determined, up to swapping children, by
+its leaf set and its pairwise path lengths: any tree `r` whose leaves are all at one depth `H`, with the same leaves and the
+same distances, is isomorphic to it (edge lengths included), and `H` is its height. -/
+theorem ultra_unique : ∀ (src : NT α), NT.Ultra src → NT.PosInternal src → (NT.leafIds src).Nodup →
+    ∀ (r : NT α) (H : α), NT.Level r H → (NT.leafIds r).Nodup → (∀ i, i ∈ NT.leafIds r ↔ i ∈ NT.leafIds src) →
+    (∀ i ∈ NT.leafIds src, ∀ j ∈ NT.leafIds src, i ≠ j → NT.dmat r i j = NT.dmat src i j) →
+    NT.Iso src r ∧ H = NT.height src
+  | .leaf k, _, _, _, r, H, hlev, hndr, hmem, _ => by
+    cases r with
+    | leaf j =>
+      have : j = k := by have := (hmem j).mp (by simp [NT.leafIds]); simpa [NT.leafIds] using this
+      subst this
+      refine ⟨NT.Iso.leaf _, ?_⟩
+      have := hlev j (by simp [NT.leafIds])
+      simp [NT.depthOf] at this; simp [NT.height, this]
+    | node f' lf' g' lg' =>
+      exfalso
+      obtain ⟨a, ha⟩ := List.exists_mem_of_ne_nil _ (leafIds_ne_nil f')
+      obtain ⟨b, hb⟩ := List.exists_mem_of_ne_nil _ (leafIds_ne_nil g')
+      have ha' := (hmem a).mp (by simp [NT.leafIds, ha])
+      have hb' := (hmem b).mp (by simp [NT.leafIds, hb])
+      simp [NT.leafIds] at ha' hb'
+      simp only [NT.leafIds] at hndr
+      exact (List.nodup_append.mp hndr).2.2 a ha b hb (ha'.trans hb'.symm)
+  | .node f lf g lg, hu, hp, hnd, r, H, hlev, hndr, hmem, hdist => by
+    have hnd0 := hnd
+    simp only [NT.leafIds] at hnd
+    have hnd' := List.nodup_append.mp hnd
+    have hdis : ∀ a ∈ NT.leafIds f, a ∉ NT.leafIds g := fun a ha hb => hnd'.2.2 a ha a hb rfl
+    obtain ⟨a0, ha0⟩ := List.exists_mem_of_ne_nil _ (leafIds_ne_nil f)
+    obtain ⟨b0, hb0⟩ := List.exists_mem_of_ne_nil _ (leafIds_ne_nil g)
+    cases r with
+    | leaf j =>
+      exfalso
+      have h1 := (hmem a0).mpr (by simp [NT.leafIds, ha0])
+      have h2 := (hmem b0).mpr (by simp [NT.leafIds, hb0])
+      simp [NT.leafIds] at h1 h2
+      exact hdis a0 ha0 (h1.trans h2.symm ▸ hb0)
+    | node f' lf' g' lg' =>
+      have hndr0 := hndr
+      simp only [NT.leafIds] at hndr
+      have hndr' := List.nodup_append.mp hndr
+      have hdis' : ∀ a ∈ NT.leafIds f', a ∉ NT.leafIds g' := fun a ha hb => hndr'.2.2 a ha a hb rfl
+      obtain ⟨i0, hi0⟩ := List.exists_mem_of_ne_nil _ (leafIds_ne_nil f')
+      obtain ⟨j0, hj0⟩ := List.exists_mem_of_ne_nil _ (leafIds_ne_nil g')
+      have inS : ∀ x, (x ∈ NT.leafIds f' ∨ x ∈ NT.leafIds g') → (x ∈ NT.leafIds f ∨ x ∈ NT.leafIds g) := fun x hx => by
+        have := (hmem x).mp (by simpa [NT.leafIds] using hx); simpa [NT.leafIds] using this
+      have inR : ∀ x, (x ∈ NT.leafIds f ∨ x ∈ NT.leafIds g) → (x ∈ NT.leafIds f' ∨ x ∈ NT.leafIds g') := fun x hx => by
+        have := (hmem x).mpr (by simpa [NT.leafIds] using hx); simpa [NT.leafIds] using this
+      set Hs := NT.height (.node f lf g lg) with hHs
+      -- cross pairs of r are 2H apart, in r and hence in src
+      have cross : ∀ i ∈ NT.leafIds f', ∀ j ∈ NT.leafIds g', NT.dmat (.node f lf g lg) i j = 2 * H := by
+        intro i hi j hj
+        have hij : i ≠ j := fun e => hdis' i hi (e ▸ hj)
+        rw [← hdist i (by simpa [NT.leafIds] using inS i (Or.inl hi)) j (by simpa [NT.leafIds] using inS j (Or.inr hj)) hij]
+        exact level_cross f' g' lf' lg' H hndr0 hlev i j hi hj
+      have sameSide_lt : ∀ i j, i ≠ j → ((i ∈ NT.leafIds f ∧ j ∈ NT.leafIds f) ∨ (i ∈ NT.leafIds g ∧ j ∈ NT.leafIds g)) →
+          NT.dmat (.node f lf g lg) i j < 2 * Hs := fun i j hij hs => pos_within_lt f g lf lg hu hp hnd0 i j hij hs
+      have crossS : ∀ i j, ((i ∈ NT.leafIds f ∧ j ∈ NT.leafIds g) ∨ (i ∈ NT.leafIds g ∧ j ∈ NT.leafIds f)) →
+          NT.dmat (.node f lf g lg) i j = 2 * Hs := fun i j hc => ultra_cross f g lf lg hu hnd0 i j hc
+      -- H = Hs
+      have hHeq : H = Hs := by
+        have hle : 2 * H ≤ 2 * Hs := by
+          rw [← cross i0 hi0 j0 hj0]
+          exact dmat_le _ hu hnd0 i0 j0 (by simpa [NT.leafIds] using inS i0 (Or.inl hi0))
+            (by simpa [NT.leafIds] using inS j0 (Or.inr hj0)) (fun e => hdis' i0 hi0 (e ▸ hj0))
+        by_contra hne
+        have hlt : 2 * H < 2 * Hs := lt_of_le_of_ne hle (fun e => hne (by linarith))
+        -- then no cross pair of r is a cross pair of src
+        have nocross : ∀ i ∈ NT.leafIds f', ∀ j ∈ NT.leafIds g',
+            ¬ ((i ∈ NT.leafIds f ∧ j ∈ NT.leafIds g) ∨ (i ∈ NT.leafIds g ∧ j ∈ NT.leafIds f)) := by
+          intro i hi j hj hc
+          have := crossS i j hc; rw [cross i hi j hj] at this; linarith
+        -- a0 ∈ f and b0 ∈ g lie in r; derive a contradiction by cases
+        have sideEq : ∀ i ∈ NT.leafIds f', ∀ j ∈ NT.leafIds g', (i ∈ NT.leafIds f ↔ j ∈ NT.leafIds f) := by
+          intro i hi j hj
+          have hn := nocross i hi j hj
+          rcases inS i (Or.inl hi) with ci | ci <;> rcases inS j (Or.inr hj) with cj | cj
+          · exact ⟨fun _ => cj, fun _ => ci⟩
+          · exact absurd (Or.inl ⟨ci, cj⟩) hn
+          · exact absurd (Or.inr ⟨ci, cj⟩) hn
+          · exact ⟨fun c => absurd ci (hdis i c), fun c => absurd cj (hdis j c)⟩
+        have allSame : ∀ x, (x ∈ NT.leafIds f' ∨ x ∈ NT.leafIds g') → (x ∈ NT.leafIds f ↔ i0 ∈ NT.leafIds f) := by
+          intro x hx
+          rcases hx with hx | hx
+          · exact (sideEq x hx j0 hj0).trans (sideEq i0 hi0 j0 hj0).symm
+          · exact (sideEq i0 hi0 x hx).symm
+        have ha := allSame a0 (inR a0 (Or.inl ha0))
+        have hb := allSame b0 (inR b0 (Or.inr hb0))
+        exact hdis b0 (hb.mpr (ha.mp ha0)) hb0
+      -- cross pairs of r are cross pairs of src
+      have isCross : ∀ i ∈ NT.leafIds f', ∀ j ∈ NT.leafIds g',
+          (i ∈ NT.leafIds f ∧ j ∈ NT.leafIds g) ∨ (i ∈ NT.leafIds g ∧ j ∈ NT.leafIds f) := by
+        intro i hi j hj
+        have hij : i ≠ j := fun e => hdis' i hi (e ▸ hj)
+        have hd := cross i hi j hj
+        rw [hHeq] at hd
+        rcases inS i (Or.inl hi) with ci | ci <;> rcases inS j (Or.inr hj) with cj | cj
+        · have := sameSide_lt i j hij (Or.inl ⟨ci, cj⟩); rw [hd] at this; exact absurd this (lt_irrefl _)
+        · exact Or.inl ⟨ci, cj⟩
+        · exact Or.inr ⟨ci, cj⟩
+        · have := sameSide_lt i j hij (Or.inr ⟨ci, cj⟩); rw [hd] at this; exact absurd this (lt_irrefl _)
+      have hlc := level_children f' g' lf' lg' H hndr0 hlev
+      have hheight : Hs = NT.height f + lf := rfl
+      have hheight' : Hs = NT.height g + lg := by rw [hheight]; exact hu.2.2.2.2
+      rcases inS i0 (Or.inl hi0) with c0 | c0
+      · -- f' = f, g' = g
+        have hj0g : j0 ∈ NT.leafIds g := by
+          rcases isCross i0 hi0 j0 hj0 with h | h
+          · exact h.2
+          · exact absurd c0 (fun c => hdis i0 c h.1)
+        have sub1 : ∀ i ∈ NT.leafIds f', i ∈ NT.leafIds f := fun i hi => by
+          rcases isCross i hi j0 hj0 with h | h
+          · exact h.1
+          · exact absurd h.2 (fun c => hdis j0 c hj0g)
+        have sub2 : ∀ j ∈ NT.leafIds g', j ∈ NT.leafIds g := fun j hj => by
+          rcases isCross i0 hi0 j hj with h | h
+          · exact h.2
+          · exact absurd c0 (fun c => hdis i0 c h.1)
+        have m1 : ∀ i, i ∈ NT.leafIds f' ↔ i ∈ NT.leafIds f := fun i => ⟨sub1 i, fun hi => by
+          rcases inR i (Or.inl hi) with h | h
+          · exact h
+          · exact absurd (sub2 i h) (hdis i hi)⟩
+        have m2 : ∀ i, i ∈ NT.leafIds g' ↔ i ∈ NT.leafIds g := fun i => ⟨sub2 i, fun hi => by
+          rcases inR i (Or.inr hi) with h | h
+          · exact absurd hi (hdis i (sub1 i h))
+          · exact h⟩
+        have d1 : ∀ i ∈ NT.leafIds f, ∀ j ∈ NT.leafIds f, i ≠ j → NT.dmat f' i j = NT.dmat f i j := fun i hi j hj hij => by
+          have := hdist i (by simp [NT.leafIds, hi]) j (by simp [NT.leafIds, hj]) hij
+          rwa [dmat_left f' g' lf' lg' i j ((m1 i).mpr hi) ((m1 j).mpr hj), dmat_left f g lf lg i j hi hj] at this
+        have d2 : ∀ i ∈ NT.leafIds g, ∀ j ∈ NT.leafIds g, i ≠ j → NT.dmat g' i j = NT.dmat g i j := fun i hi j hj hij => by
+          have := hdist i (by simp [NT.leafIds, hi]) j (by simp [NT.leafIds, hj]) hij
+          rwa [dmat_right f' g' lf' lg' i j (fun c => hdis i (sub1 i c) hi) (fun c => hdis j (sub1 j c) hj),
+            dmat_right f g lf lg i j (fun c => hdis i c hi) (fun c => hdis j c hj)] at this
+        obtain ⟨iso1, e1⟩ := ultra_unique f hu.1 hp.1 hnd'.1 f' (H - lf') hlc.1 hndr'.1 m1 d1
+        obtain ⟨iso2, e2⟩ := ultra_unique g hu.2.1 hp.2.1 hnd'.2.1 g' (H - lg') hlc.2 hndr'.2.1 m2 d2
+        have el1 : lf' = lf := by linarith
+        have el2 : lg' = lg := by linarith
+        subst el1; subst el2
+        exact ⟨NT.Iso.same _ _ iso1 iso2, hHeq⟩
+      · -- f' = g, g' = f
+        have hj0f : j0 ∈ NT.leafIds f := by
+          rcases isCross i0 hi0 j0 hj0 with h | h
+          · exact absurd c0 (hdis i0 h.1)
+          · exact h.2
+        have sub1 : ∀ i ∈ NT.leafIds f', i ∈ NT.leafIds g := fun i hi => by
+          rcases isCross i hi j0 hj0 with h | h
+          · exact absurd h.2 (hdis j0 hj0f)
+          · exact h.1
+        have sub2 : ∀ j ∈ NT.leafIds g', j ∈ NT.leafIds f := fun j hj => by
+          rcases isCross i0 hi0 j hj with h | h
+          · exact absurd c0 (hdis i0 h.1)
+          · exact h.2
+        have m1 : ∀ i, i ∈ NT.leafIds f' ↔ i ∈ NT.leafIds g := fun i => ⟨sub1 i, fun hi => by
+          rcases inR i (Or.inr hi) with h | h
+          · exact h
+          · exact absurd hi (hdis i (sub2 i h))⟩
+        have m2 : ∀ i, i ∈ NT.leafIds g' ↔ i ∈ NT.leafIds f := fun i => ⟨sub2 i, fun hi => by
+          rcases inR i (Or.inl hi) with h | h
+          · exact absurd (sub1 i h) (hdis i hi)
+          · exact h⟩
+        have d1 : ∀ i ∈ NT.leafIds g, ∀ j ∈ NT.leafIds g, i ≠ j → NT.dmat f' i j = NT.dmat g i j := fun i hi j hj hij => by
+          have := hdist i (by simp [NT.leafIds, hi]) j (by simp [NT.leafIds, hj]) hij
+          rwa [dmat_left f' g' lf' lg' i j ((m1 i).mpr hi) ((m1 j).mpr hj),
+            dmat_right f g lf lg i j (fun c => hdis i c hi) (fun c => hdis j c hj)] at this
+        have d2 : ∀ i ∈ NT.leafIds f, ∀ j ∈ NT.leafIds f, i ≠ j → NT.dmat g' i j = NT.dmat f i j := fun i hi j hj hij => by
+          have := hdist i (by simp [NT.leafIds, hi]) j (by simp [NT.leafIds, hj]) hij
+          rwa [dmat_right f' g' lf' lg' i j (fun c => hdis i hi (sub1 i c)) (fun c => hdis j hj (sub1 j c)),
+            dmat_left f g lf lg i j hi hj] at this
+        obtain ⟨iso1, e1⟩ := ultra_unique g hu.2.1 hp.2.1 hnd'.2.1 f' (H - lf') hlc.1 hndr'.1 m1 d1
+        obtain ⟨iso2, e2⟩ := ultra_unique f hu.1 hp.1 hnd'.1 g' (H - lg') hlc.2 hndr'.2.1 m2 d2
+        have el1 : lf' = lg := by linarith
+        have el2 : lg' = lf := by linarith
+        subst el1; subst el2
+        exact ⟨NT.Iso.swap _ _ iso2 iso1, hHeq⟩
+end unique2
+
+
+section recover2
+variable {α : Type} [Field α] [LinearOrder α] [IsStrictOrderedRing α] [CharZero α]
+
+/-- (d) `upgma_recovers_tree` — the UPGMA clause of the property, in full: for every ultrametric rooted binary tree `src` on the taxa
+`0 … n-1` with positive internal edge lengths, `upgma_tree` applied to the path-length matrix of `src` returns `src` itself up
+to swapping the two children of nodes — same topology, same edge lengths.  (`upgma_realises` + `ultra_three_point` +
+`ultra_unique`; the "minimal pair of an ultrametric is a sibling pair" step is inside `upgma_join_urel`.) -/
+theorem upgma_recovers_tree (n : Nat) (src : NT α) (hu : NT.Ultra src) (hp : NT.PosInternal src)
+    (hnd : (NT.leafIds src).Nodup) (hl : (NT.leafIds src).Perm (List.range n)) :
+    ∃ r, upgmaTree n (NT.dmat src) = some r ∧ NT.Iso src r := by
+  obtain ⟨r, hr, hperm, hd, H, hH⟩ := upgma_inverts_ultrametric_tree n src hu hnd hl
+  refine ⟨r, hr, ?_⟩
+  have hmr : ∀ i, i ∈ NT.leafIds r ↔ i < n := fun i => by rw [hperm.mem_iff, List.mem_range]
+  have hms : ∀ i, i ∈ NT.leafIds src ↔ i < n := fun i => by rw [hl.mem_iff, List.mem_range]
+  refine (ultra_unique src hu hp hnd r H (fun i hi => hH i ((hmr i).mp hi))
+    (hperm.nodup_iff.mpr List.nodup_range) (fun i => (hmr i).trans (hms i).symm) ?_).1
+  intro i hi j hj hij
+  simp only [NT.dmat, hd i ((hms i).mp hi) j ((hms j).mp hj) hij]
+end recover2
+
+/-- non-vacuity: ((0:1,1:1):1,2:2) is returned as it is -/
+example := upgma_recovers_tree (α := ℚ) 3 (.node (.node (.leaf 0) 1 (.leaf 1) 1) 1 (.leaf 2) 2)
+  (by simp [NT.Ultra, NT.height]; norm_num) (by simp [NT.PosInternal]) (by decide) (by decide)
+
+/-- (d, at the driver's own type) `frac_upgma_recovers_tree`: if the `Frac` matrix handed to `drv_c14` denotes the path lengths of
+an ultrametric tree `src` over ℚ with positive internal edges, the tree the driver prints for `upgma` denotes `src` up to
+swapping children. -/
+theorem frac_upgma_recovers_tree (n : Nat) (M : Nat → Nat → Frac) (hv : ∀ a b, (M a b).den ≠ 0) (src : NT ℚ)
+    (hM : ∀ a b, toRat (M a b) = NT.dmat src a b) (hu : NT.Ultra src) (hp : NT.PosInternal src)
+    (hnd : (NT.leafIds src).Nodup) (hl : (NT.leafIds src).Perm (List.range n)) :
+    ∃ r, upgmaTree n M = some r ∧ NT.Iso src (mapNT toRat r) := by
+  have hn : 1 ≤ n := by
+    have := List.length_pos_iff.mpr (leafIds_ne_nil src)
+    rw [hl.length_eq, List.length_range] at this; exact this
+  obtain ⟨r, hr, hq, _⟩ := frac_upgma_tree n M hv hn
+  obtain ⟨rq, hrq, hiso⟩ := upgma_recovers_tree n src hu hp hnd hl
+  have : (fun a b => toRat (M a b)) = NT.dmat src := by funext a b; exact hM a b
+  rw [this, hrq] at hq
+  injection hq with hq
+  exact ⟨r, hr, hq ▸ hiso⟩
+
+
+/-! ## `treemeasure.patristic_distance`: `Tree.mrca` + two climbs = the unique path length -/
+/-- taxa sit on the leaves, and only there (what `find_node(taxon == …)` relies on) -/
+def LeafTaxa (t : T) : Prop := ∀ u ∈ t.nodes, (u.cs = [] → u.taxon.isSome) ∧ (u.cs ≠ [] → u.taxon = none)
+
+section tm
+variable {α : Type} [AddCommMonoid α] (ℓ : T → α)
+
+namespace Aux
+theorem climbAcc_eq (acc : α) (p : List T) : climbAcc ℓ acc p = acc + (p.map ℓ).sum := by
+  simp only [climbAcc]
+  rw [foldl_add_sum ℓ p.reverse acc, List.map_reverse, List.sum_reverse]
+
+theorem leafTaxa_child {t c : T} (h : LeafTaxa t) (hc : c ∈ t.cs) : LeafTaxa c :=
+  fun u hu => h u (nodes_child hc hu)
+
+mutual
+/-- the chain below a node down to the leaf of taxon `a` carries exactly the lengths `down` adds up -/
+theorem path_down : ∀ (t : T), LeafTaxa t → ∀ a : Nat,
+    (∀ r, down ℓ taxonKey t a = some r → ∃ p, pathToTaxon a t = some p ∧ r = ((p.map ℓ).sum + ℓ t, p.length + 1)) ∧
+    (down ℓ taxonKey t a = none → pathToTaxon a t = none)
+  | .node j x l s [], h, a => by
+    have hx := (h _ (nodes_self _)).1 (by simp [T.cs])
+    simp only [T.taxon] at hx
+    obtain ⟨k, rfl⟩ := Option.isSome_iff_exists.mp hx
+    simp only [down, pathToTaxon, pathToTaxonL, taxonKey, T.taxon]
+    by_cases hk : k = a
+    · subst hk; simp
+    · simp [hk]
+  | .node j x l s (c :: cs), h, a => by
+    have hx := (h _ (nodes_self _)).2 (by simp [T.cs])
+    simp only [T.taxon] at hx
+    subst hx
+    have hch : ∀ c' ∈ c :: cs, LeafTaxa c' := fun c' hc' => leafTaxa_child (t := .node j none l s (c :: cs)) h (by simpa [T.cs] using hc')
+    have ih := pathL_down (c :: cs) hch a
+    simp only [down, pathToTaxon]
+    constructor
+    · intro r hr
+      cases hd : downL ℓ taxonKey (c :: cs) a with
+      | none => simp [hd] at hr
+      | some r' =>
+        simp only [hd, Option.some.injEq] at hr
+        obtain ⟨p, hp, e⟩ := ih.1 r' hd
+        refine ⟨p, by simpa using hp, ?_⟩
+        rw [← hr, e]
+    · intro hn
+      cases hd : downL ℓ taxonKey (c :: cs) a with
+      | none => simpa using ih.2 hd
+      | some r' => simp [hd] at hn
+theorem pathL_down : ∀ (cs : List T), (∀ c ∈ cs, LeafTaxa c) → ∀ a : Nat,
+    (∀ r, downL ℓ taxonKey cs a = some r → ∃ p, pathToTaxonL a cs = some p ∧ r = ((p.map ℓ).sum, p.length)) ∧
+    (downL ℓ taxonKey cs a = none → pathToTaxonL a cs = none)
+  | [], _, a => by simp [downL, pathToTaxonL]
+  | c :: cs, h, a => by
+    have ih1 := path_down c (h c List.mem_cons_self) a
+    have ih2 := pathL_down cs (fun c' hc' => h c' (List.mem_cons_of_mem _ hc')) a
+    simp only [downL, pathToTaxonL]
+    cases hd : down ℓ taxonKey c a with
+    | some r =>
+      obtain ⟨p, hp, e⟩ := ih1.1 r hd
+      simp only [hp]
+      refine ⟨fun r' hr' => ⟨c :: p, rfl, ?_⟩, fun hn => by simp at hn⟩
+      injection hr' with hr'; rw [← hr', e]; simp [add_comm]
+    | none =>
+      simp only [ih1.2 hd]
+      exact ih2
+end
+
+mutual
+theorem leafKeys_nodes_sub (key : T → Nat) : ∀ (t u : T), u ∈ t.nodes → ∀ a ∈ leafKeys key u, a ∈ leafKeys key t
+  | .node j x l s cs, u, hu, a, ha => by
+    simp only [T.nodes, List.mem_cons] at hu
+    rcases hu with rfl | hu
+    · exact ha
+    · cases cs with
+      | nil => simp [T.nodesL] at hu
+      | cons c cs => rw [leafKeys_node]; exact leafKeysL_nodes_sub key (c :: cs) u hu a ha
+theorem leafKeysL_nodes_sub (key : T → Nat) : ∀ (cs : List T) (u : T), u ∈ T.nodesL cs → ∀ a ∈ leafKeys key u, a ∈ leafKeysL key cs
+  | [], u, hu, _, _ => by simp [T.nodesL] at hu
+  | c :: cs, u, hu, a, ha => by
+    simp only [T.nodesL, List.mem_append] at hu
+    rw [leafKeysL_cons]
+    rcases hu with hu | hu
+    · exact List.mem_append_left _ (leafKeys_nodes_sub key c u hu a ha)
+    · exact List.mem_append_right _ (leafKeysL_nodes_sub key cs u hu a ha)
+end
+
+mutual
+/-- the path between two leaves of a subtree is the same in the subtree and in the whole tree -/
+theorem turn_descend (key : T → Nat) : ∀ (t : T), (leafKeys key t).Nodup → ∀ u ∈ t.nodes, ∀ a b : Nat,
+    a ∈ leafKeys key u → b ∈ leafKeys key u → turn ℓ key t a b = turn ℓ key u a b
+  | .node j x l s cs, hnd, u, hu, a, b, ha, hb => by
+    simp only [T.nodes, List.mem_cons] at hu
+    rcases hu with rfl | hu
+    · rfl
+    · cases cs with
+      | nil => simp [T.nodesL] at hu
+      | cons c cs =>
+        rw [leafKeys_node] at hnd
+        simp only [turn]
+        exact turnL_descend key j (c :: cs) hnd u hu a b ha hb
+theorem turnL_descend (key : T → Nat) (m : Nat) : ∀ (cs : List T), (leafKeysL key cs).Nodup → ∀ u ∈ T.nodesL cs, ∀ a b : Nat,
+    a ∈ leafKeys key u → b ∈ leafKeys key u → turnL ℓ key m cs a b = turn ℓ key u a b
+  | [], _, u, hu, _, _, _, _ => by simp [T.nodesL] at hu
+  | c :: cs, hnd, u, hu, a, b, ha, hb => by
+    simp only [T.nodesL, List.mem_append] at hu
+    rw [leafKeysL_cons] at hnd
+    have hnd' := List.nodup_append.mp hnd
+    rcases hu with hu | hu
+    · have hac := leafKeys_nodes_sub key c u hu a ha
+      have hbc := leafKeys_nodes_sub key c u hu b hb
+      obtain ⟨ra, hra⟩ := Option.isSome_iff_exists.mp ((down_isSome ℓ key c a).mpr hac)
+      obtain ⟨rb, hrb⟩ := Option.isSome_iff_exists.mp ((down_isSome ℓ key c b).mpr hbc)
+      simp only [turnL, hra, hrb]
+      exact turn_descend key c hnd'.1 u hu a b ha hb
+    · have hac := leafKeysL_nodes_sub key cs u hu a ha
+      have hbc := leafKeysL_nodes_sub key cs u hu b hb
+      have na : a ∉ leafKeys key c := fun h' => hnd'.2.2 a h' a hac rfl
+      have nb : b ∉ leafKeys key c := fun h' => hnd'.2.2 b h' b hbc rfl
+      simp only [turnL, down_none ℓ key na, down_none ℓ key nb]
+      exact turnL_descend key m cs hnd'.2.1 u hu a b ha hb
+end
+
+/-- at the turning node the path length is the sum of the two descents -/
+theorem turnL_at (key : T → Nat) (m : Nat) : ∀ (cs : List T), (leafKeysL key cs).Nodup → ∀ a b : Nat,
+    a ∈ leafKeysL key cs → b ∈ leafKeysL key cs → (∀ c ∈ cs, ¬ (a ∈ leafKeys key c ∧ b ∈ leafKeys key c)) →
+    ∃ xa xb, downL ℓ key cs a = some xa ∧ downL ℓ key cs b = some xb ∧
+      turnL ℓ key m cs a b = some (xa.1 + xb.1, xa.2 + xb.2, m)
+  | [], _, a, _, ha, _, _ => by simp [leafKeysL_nil] at ha
+  | c :: cs, hnd, a, b, ha, hb, hno => by
+    rw [leafKeysL_cons] at hnd ha hb
+    have hnd' := List.nodup_append.mp hnd
+    have hno' : ∀ c' ∈ cs, ¬ (a ∈ leafKeys key c' ∧ b ∈ leafKeys key c') := fun c' h' => hno c' (List.mem_cons_of_mem _ h')
+    rcases List.mem_append.mp ha with ca | ca <;> rcases List.mem_append.mp hb with cb | cb
+    · exact absurd ⟨ca, cb⟩ (hno c List.mem_cons_self)
+    · obtain ⟨x, hx⟩ := Option.isSome_iff_exists.mp ((down_isSome ℓ key c a).mpr ca)
+      have nb : b ∉ leafKeys key c := fun h' => hnd'.2.2 b h' b cb rfl
+      obtain ⟨y, hy⟩ := Option.isSome_iff_exists.mp ((downL_isSome ℓ key cs b).mpr cb)
+      exact ⟨x, y, by simp [downL, hx], by simp [downL, down_none ℓ key nb, hy],
+        by simp [turnL, hx, down_none ℓ key nb, hy]⟩
+    · obtain ⟨y, hy⟩ := Option.isSome_iff_exists.mp ((down_isSome ℓ key c b).mpr cb)
+      have na : a ∉ leafKeys key c := fun h' => hnd'.2.2 a h' a ca rfl
+      obtain ⟨x, hx⟩ := Option.isSome_iff_exists.mp ((downL_isSome ℓ key cs a).mpr ca)
+      exact ⟨x, y, by simp [downL, down_none ℓ key na, hx], by simp [downL, hy],
+        by simp [turnL, hy, down_none ℓ key na, hx]⟩
+    · have na : a ∉ leafKeys key c := fun h' => hnd'.2.2 a h' a ca rfl
+      have nb : b ∉ leafKeys key c := fun h' => hnd'.2.2 b h' b cb rfl
+      obtain ⟨xa, xb, h1, h2, h3⟩ := turnL_at key m cs hnd'.2.1 a b ca cb hno'
+      exact ⟨xa, xb, by simp [downL, down_none ℓ key na, h1], by simp [downL, down_none ℓ key nb, h2],
+        by simp [turnL, down_none ℓ key na, down_none ℓ key nb, h3]⟩
+end Aux
+end tm
+
+
+namespace Aux
+mutual
+theorem nodup_sub (key : T → Nat) : ∀ (t : T), (leafKeys key t).Nodup → ∀ u ∈ t.nodes, (leafKeys key u).Nodup
+  | .node j x l s cs, hnd, u, hu => by
+    simp only [T.nodes, List.mem_cons] at hu
+    rcases hu with rfl | hu
+    · exact hnd
+    · cases cs with
+      | nil => simp [T.nodesL] at hu
+      | cons c cs => rw [leafKeys_node] at hnd; exact nodupL_sub key (c :: cs) hnd u hu
+theorem nodupL_sub (key : T → Nat) : ∀ (cs : List T), (leafKeysL key cs).Nodup → ∀ u ∈ T.nodesL cs, (leafKeys key u).Nodup
+  | [], _, u, hu => by simp [T.nodesL] at hu
+  | c :: cs, hnd, u, hu => by
+    simp only [T.nodesL, List.mem_append] at hu
+    rw [leafKeysL_cons] at hnd
+    have hnd' := List.nodup_append.mp hnd
+    rcases hu with hu | hu
+    · exact nodup_sub key c hnd'.1 u hu
+    · exact nodupL_sub key cs hnd'.2.1 u hu
+end
+end Aux
+
+section tm2
+variable {α : Type} [AddCommMonoid α] (ℓ : T → α)
+
+/-- (a+c) `treemeasure_climb_spec`: started at the node `r` where the path between the taxa `a ≠ b` turns, the two climbs of
+`treemeasure.patristic_distance` exist (each taxon's leaf is below `r`) and their running sum is the length of the unique
+path between the two taxa in the whole tree — what the distance matrix stores (`pdm_spec`). -/
+theorem treemeasure_climb_spec (t r : T) (a b : Nat) (hab : a ≠ b) (hg : Good taxonKey t) (hlt : LeafTaxa t)
+    (hr : r ∈ t.nodes) (hturn : TurnsAt taxonKey r a b) :
+    ∃ pa pb, pathToTaxon a r = some pa ∧ pathToTaxon b r = some pb ∧
+      ∃ n, turn ℓ taxonKey t a b = some (climbAcc ℓ (climbAcc ℓ 0 pa) pb, n, r.id) := by
+  obtain ⟨ha, hb, hno⟩ := hturn
+  have hltr : LeafTaxa r := fun u hu => hlt u (nodes_trans t r hr u hu)
+  have hndr : (leafKeys taxonKey r).Nodup := by
+    exact nodup_sub taxonKey t hg r hr
+  rw [turn_descend ℓ taxonKey t hg r hr a b ha hb]
+  cases r with
+  | node j x l s cs =>
+    cases cs with
+    | nil =>
+      rw [leafKeys_leaf] at ha hb
+      simp at ha hb
+      exact absurd (ha.trans hb.symm) hab
+    | cons c cs =>
+      have hx := (hltr _ (nodes_self _)).2 (by simp [T.cs])
+      simp only [T.taxon] at hx; subst hx
+      rw [leafKeys_node] at ha hb hndr
+      obtain ⟨xa, xb, h1, h2, h3⟩ := turnL_at ℓ taxonKey j (c :: cs) hndr a b ha hb (by simpa [T.cs] using hno)
+      have hch : ∀ c' ∈ c :: cs, LeafTaxa c' := fun c' hc' =>
+        leafTaxa_child (t := .node j none l s (c :: cs)) hltr (by simpa [T.cs] using hc')
+      obtain ⟨pa, hpa, ea⟩ := (pathL_down ℓ (c :: cs) hch a).1 xa h1
+      obtain ⟨pb, hpb, eb⟩ := (pathL_down ℓ (c :: cs) hch b).1 xb h2
+      refine ⟨pa, pb, by simpa [pathToTaxon] using hpa, by simpa [pathToTaxon] using hpb, xa.2 + xb.2, ?_⟩
+      simp only [turn, T.id, h3]
+      rw [climbAcc_eq, climbAcc_eq, zero_add, ea, eb]
+end tm2
+
+
+namespace Aux
+mutual
+/-- the leafset bitmask has bit `k` set exactly when taxon `k` is on a leaf below -/
+theorem mask_testBit : ∀ (t : T), LeafTaxa t → ∀ k : Nat, t.mask.testBit k = true ↔ k ∈ leafKeys taxonKey t
+  | .node j x l s [], h, k => by
+    have hx := (h _ (nodes_self _)).1 (by simp [T.cs])
+    simp only [T.taxon] at hx
+    obtain ⟨k0, rfl⟩ := Option.isSome_iff_exists.mp hx
+    rw [leafKeys_leaf]
+    simp [T.mask, taxonKey, T.taxon, Nat.one_shiftLeft, Nat.testBit_two_pow, eq_comm]
+  | .node j x l s (c :: cs), h, k => by
+    rw [leafKeys_node, mask_node]
+    exact maskL_testBit (c :: cs)
+      (fun c' hc' => leafTaxa_child (t := .node j x l s (c :: cs)) h (by simpa [T.cs] using hc')) k
+theorem maskL_testBit : ∀ (cs : List T), (∀ c ∈ cs, LeafTaxa c) → ∀ k : Nat,
+    (T.maskL cs).testBit k = true ↔ k ∈ leafKeysL taxonKey cs
+  | [], _, k => by simp [T.maskL, leafKeysL_nil]
+  | c :: cs, h, k => by
+    rw [leafKeysL_cons, List.mem_append, ← mask_testBit c (h c List.mem_cons_self) k,
+      ← maskL_testBit cs (fun c' hc' => h c' (List.mem_cons_of_mem _ hc')) k]
+    simp [T.maskL, Nat.testBit_or]
+end
+
+theorem covers_pair_iff (m a b : Nat) :
+    m &&& (1 <<< a ||| 1 <<< b) = (1 <<< a ||| 1 <<< b) ↔ (m.testBit a = true ∧ m.testBit b = true) := by
+  constructor
+  · intro h
+    have ha := congrArg (fun z => z.testBit a) h
+    have hb := congrArg (fun z => z.testBit b) h
+    simp only [Nat.testBit_and, Nat.testBit_or, Nat.one_shiftLeft, Nat.testBit_two_pow] at ha hb
+    simp at ha hb
+    exact ⟨ha, hb⟩
+  · intro ⟨ha, hb⟩
+    apply Nat.eq_of_testBit_eq
+    intro i
+    simp only [Nat.testBit_and, Nat.testBit_or, Nat.one_shiftLeft, Nat.testBit_two_pow]
+    by_cases h1 : a = i
+    · subst h1; simp [ha]
+    · by_cases h2 : b = i
+      · subst h2; simp [hb]
+      · simp [h1, h2]
+
+/-- what the mask-guided descent returns for two taxa is the node where their path turns -/
+theorem mrca_turnsAt (r : T) (hlt : LeafTaxa r) (a b : Nat) (hc : covers (1 <<< a ||| 1 <<< b) r)
+    (hno : ∀ c ∈ r.cs, ¬ covers (1 <<< a ||| 1 <<< b) c) : TurnsAt taxonKey r a b := by
+  have h1 := (covers_pair_iff r.mask a b).mp hc
+  refine ⟨(mask_testBit r hlt a).mp h1.1, (mask_testBit r hlt b).mp h1.2, ?_⟩
+  intro c hcm hboth
+  have hltc := leafTaxa_child hlt hcm
+  exact hno c hcm ((covers_pair_iff c.mask a b).mpr
+    ⟨(mask_testBit c hltc a).mpr hboth.1, (mask_testBit c hltc b).mpr hboth.2⟩)
+end Aux
+
+section tm3
+variable {α : Type} [AddCommMonoid α] (ℓ : T → α)
+
+/-- (a+c) `treemeasure_spec` — `treemeasure.patristic_distance` as a whole, on every entry path that re-encodes (its default
+`is_bipartitions_updated=False`, or a never-encoded tree).  On the tree `t'` the call leaves behind, if taxa sit exactly on
+the leaves, no taxon twice, node ids distinct, then for two different leaf taxa the call returns a number, and that number
+is the length of the unique path between them (`turn`, the quantity `pdm_spec` proves the distance matrix stores): the
+`Tree.mrca` descent and the two climbs compose to the path length. -/
+theorem treemeasure_spec (rooted refresh : Bool) (stored : Nat → Nat) (a b : Nat) (t : T) (hab : a ≠ b)
+    (hre : stored t.id = 0 ∨ refresh = true) :
+    let t' := if !rooted && t.cs.length = 2 then collapseBasal t else t
+    t'.id = t.id → (t'.nodes.map T.id).Nodup → GoodM t' → Good taxonKey t' → LeafTaxa t' →
+    a ∈ t'.leaves.map taxonKey → b ∈ t'.leaves.map taxonKey →
+    ∃ v n m, treePatristic ℓ rooted refresh stored a b t = .ok v ∧ turn ℓ taxonKey t' a b = some (v, n, m) := by
+  intro t' hid hids hgm hg hlt ha hb
+  have htarget : (1 <<< a ||| 1 <<< b) ≠ 0 := by
+    intro h
+    have := congrArg (fun z => z.testBit a) h
+    simp [Nat.testBit_or, Nat.one_shiftLeft, Nat.testBit_two_pow] at this
+  have hfind : t'.find? t.id = some t' := by rw [← hid]; exact find_self t' hids t' (nodes_self _)
+  have hcov : covers (1 <<< a ||| 1 <<< b) t' :=
+    (covers_pair_iff t'.mask a b).mpr ⟨(mask_testBit t' hlt a).mpr ha, (mask_testBit t' hlt b).mpr hb⟩
+  obtain ⟨r, hr, hrn, hrc, hrno, _⟩ :=
+    (tree_mrca_reencode_spec rooted refresh stored (1 <<< a ||| 1 <<< b) t.id t t' htarget hre hids hgm hfind).1 hcov
+  have hltr : LeafTaxa r := fun u hu => hlt u (nodes_trans t' r hrn u hu)
+  obtain ⟨pa, pb, h1, h2, n, h3⟩ := treemeasure_climb_spec ℓ t' r a b hab hg hlt hrn (mrca_turnsAt r hltr a b hrc hrno)
+  exact ⟨_, n, r.id, by simp only [treePatristic, hr, h1, h2], h3⟩
+end tm3
+
+/-- non-vacuity: every hypothesis holds on the example tree (taxa 0 and 3, never-encoded tree, rooted) -/
+example : ∃ v n m, treePatristic (α := ℚ) (fun _ => 1) true false (fun _ => 0) 0 3 exTree = .ok v ∧
+    turn (fun _ => (1 : ℚ)) taxonKey exTree 0 3 = some (v, n, m) :=
+  treemeasure_spec (fun _ => 1) true false (fun _ => 0) 0 3 exTree (by decide) (Or.inl rfl) rfl (by decide)
+    (show GoodM exTree from by
+      intro u hu
+      simp only [exTree, T.nodes, T.nodesL, List.mem_cons, List.mem_append, List.not_mem_nil, or_false, List.append_nil] at hu
+      rcases hu with rfl | (rfl | rfl | rfl | rfl | rfl) | rfl <;> simp [T.cs, Disj, T.mask, T.maskL])
+    (by unfold Good; decide)
+    (show LeafTaxa exTree from by
+      intro u hu
+      simp only [exTree, T.nodes, T.nodesL, List.mem_cons, List.mem_append, List.not_mem_nil, or_false, List.append_nil] at hu
+      rcases hu with rfl | (rfl | rfl | rfl | rfl | rfl) | rfl <;> simp [T.cs, T.taxon])
+    (by decide) (by decide)
+
+
+section tm4
+variable {α : Type} [AddCommMonoid α] (ℓ : T → α)
+
+/-- (a+c) `treemeasure_current_spec` — the other entry path of `treemeasure.patristic_distance`: `is_bipartitions_updated=True` on
+a tree whose stored encoding is current (and exists).  The tree is left alone and the call returns the length of the unique
+path between the two different leaf taxa. -/
+theorem treemeasure_current_spec (rooted : Bool) (stored : Nat → Nat) (a b : Nat) (t : T) (hab : a ≠ b)
+    (h0 : stored t.id ≠ 0) (hcur : Current stored t) (hids : (t.nodes.map T.id).Nodup) (hgm : GoodM t)
+    (hg : Good taxonKey t) (hlt : LeafTaxa t) (ha : a ∈ t.leaves.map taxonKey) (hb : b ∈ t.leaves.map taxonKey) :
+    ∃ v n m, treePatristic ℓ rooted false stored a b t = .ok v ∧ turn ℓ taxonKey t a b = some (v, n, m) := by
+  have htarget : (1 <<< a ||| 1 <<< b) ≠ 0 := by
+    intro h
+    have := congrArg (fun z => z.testBit a) h
+    simp [Nat.testBit_or, Nat.one_shiftLeft, Nat.testBit_two_pow] at this
+  have hfind : t.find? t.id = some t := find_self t hids t (nodes_self _)
+  have hcov : covers (1 <<< a ||| 1 <<< b) t :=
+    (covers_pair_iff t.mask a b).mpr ⟨(mask_testBit t hlt a).mpr ha, (mask_testBit t hlt b).mpr hb⟩
+  obtain ⟨r, hr, hrn, hrc, hrno, _⟩ :=
+    tree_mrca_current_spec rooted stored (1 <<< a ||| 1 <<< b) t.id t t htarget h0 hfind hcur hgm hcov
+  have hltr : LeafTaxa r := fun u hu => hlt u (nodes_trans t r hrn u hu)
+  obtain ⟨pa, pb, h1, h2, n, h3⟩ := treemeasure_climb_spec ℓ t r a b hab hg hlt hrn (mrca_turnsAt r hltr a b hrc hrno)
+  exact ⟨_, n, r.id, by simp only [treePatristic, hr, h1, h2], h3⟩
+end tm4
+
+/-- (a+c, at the driver's own type) the sum `drv_c14` accumulates over the two climbs denotes the sum of the denoted lengths -/
+theorem frac_climbAcc (acc : Frac) (hacc : acc.den ≠ 0) (p : List T) :
+    (climbAcc fracLen acc p).den ≠ 0 ∧ toRat (climbAcc fracLen acc p) = climbAcc ratLen (toRat acc) p := by
+  simp only [climbAcc]
+  generalize p.reverse = q
+  induction q generalizing acc with
+  | nil => exact ⟨hacc, rfl⟩
+  | cons u q ih =>
+    simp only [List.foldl_cons]
+    have h := toRat_add acc (fracLen u) hacc (fracLen_ok u)
+    have := ih (acc + fracLen u) h.1
+    rw [h.2] at this
+    exact this
+
+/-- (a+c, at the driver's own type) `frac_treemeasure_spec`: for a tree as in `treemeasure_spec`, what `drv_c14` prints for `tm`
+is a number whose value is the unique-path length computed in ℚ from the rational edge lengths. -/
+theorem frac_treemeasure_spec (rooted refresh : Bool) (stored : Nat → Nat) (a b : Nat) (t : T) (hab : a ≠ b)
+    (hre : stored t.id = 0 ∨ refresh = true) :
+    let t' := if !rooted && t.cs.length = 2 then collapseBasal t else t
+    t'.id = t.id → (t'.nodes.map T.id).Nodup → GoodM t' → Good taxonKey t' → LeafTaxa t' →
+    a ∈ t'.leaves.map taxonKey → b ∈ t'.leaves.map taxonKey →
+    ∃ v n m, treePatristic fracLen rooted refresh stored a b t = .ok v ∧ v.den ≠ 0 ∧
+      turn ratLen taxonKey t' a b = some (toRat v, n, m) := by
+  intro t' hid hids hgm hg hlt ha hb
+  obtain ⟨vq, n, m, h1, h2⟩ := treemeasure_spec ratLen rooted refresh stored a b t hab hre hid hids hgm hg hlt ha hb
+  -- the two runs take the same branch: they differ only in the accumulated numbers
+  simp only [treePatristic] at h1 ⊢
+  cases hm : treeMrca rooted refresh stored (1 <<< a ||| 1 <<< b) t.id t with
+  | valueError => simp [hm] at h1
+  | startGone => simp [hm] at h1
+  | found t2 r =>
+    cases r with
+    | none =>
+      -- excluded by `treemeasure_spec`'s own argument: recover the branch from the mrca theorem
+      exfalso
+      have htarget : (1 <<< a ||| 1 <<< b) ≠ 0 := by
+        intro h
+        have := congrArg (fun z => z.testBit a) h
+        simp [Nat.testBit_or, Nat.one_shiftLeft, Nat.testBit_two_pow] at this
+      have hfind : t'.find? t.id = some t' := by rw [← hid]; exact find_self t' hids t' (nodes_self _)
+      have hcov : covers (1 <<< a ||| 1 <<< b) t' :=
+        (covers_pair_iff t'.mask a b).mpr ⟨(mask_testBit t' hlt a).mpr ha, (mask_testBit t' hlt b).mpr hb⟩
+      obtain ⟨r, hr, _⟩ :=
+        (tree_mrca_reencode_spec rooted refresh stored (1 <<< a ||| 1 <<< b) t.id t t' htarget hre hids hgm hfind).1 hcov
+      rw [hm] at hr; cases hr
+    | some r =>
+      simp only [hm] at h1 ⊢
+      cases hpa : pathToTaxon a r with
+      | none => simp [hpa] at h1
+      | some pa =>
+        cases hpb : pathToTaxon b r with
+        | none => simp [hpa, hpb] at h1
+        | some pb =>
+          simp only [hpa, hpb, TmResult.ok.injEq] at h1 ⊢
+          have c1 := frac_climbAcc 0 ok_zero pa
+          have c2 := frac_climbAcc (climbAcc fracLen 0 pa) c1.1 pb
+          refine ⟨_, n, m, rfl, c2.1, ?_⟩
+          rw [c2.2, c1.2, toRat_zero, h1]; exact h2
+
+/-- non-vacuity: the current-encoding path on the example tree, at ℚ and at `Frac` -/
+example : ∃ v n m, treePatristic (α := ℚ) (fun _ => 1) true false (freshMask exTree) 0 3 exTree = .ok v ∧
+    turn (fun _ => (1 : ℚ)) taxonKey exTree 0 3 = some (v, n, m) :=
+  treemeasure_current_spec (fun _ => 1) true (freshMask exTree) 0 3 exTree (by decide) (by decide)
+    (tree_mrca_refresh_current exTree (by decide)) (by decide)
+    (by
+      intro u hu
+      simp only [exTree, T.nodes, T.nodesL, List.mem_cons, List.mem_append, List.not_mem_nil, or_false, List.append_nil] at hu
+      rcases hu with rfl | (rfl | rfl | rfl | rfl | rfl) | rfl <;> simp [T.cs, Disj, T.mask, T.maskL])
+    (by unfold Good; decide)
+    (by
+      intro u hu
+      simp only [exTree, T.nodes, T.nodesL, List.mem_cons, List.mem_append, List.not_mem_nil, or_false, List.append_nil] at hu
+      rcases hu with rfl | (rfl | rfl | rfl | rfl | rfl) | rfl <;> simp [T.cs, T.taxon])
+    (by decide) (by decide)
+example := frac_treemeasure_spec true false (fun _ => 0) 0 3 exTree (by decide) (Or.inl rfl)
 
 end DendroModel.C14
